@@ -1,198 +1,56 @@
-import Ebv.Model.SdoSystem
+import Ebv.Lemmas.Sdo
 /-! C16 — SDO transfers carry values byte-for-byte.
 
 The theorems are about `SdoSystem.system`: the master of `Ebv.Sdo` (a transcription of
-`Terminal.sdo_read/sdo_write/mbx_send/mbx_recv`) composed with the conformant server of
-`Ebv.SdoServer`.  One theorem per transfer mode, each for all object contents, lengths, mailbox
-sizes, indices, counters and schedules (delays, unrelated mail, drain by `mbx_send`).  The modes the code
-gets wrong are stated at full strength as `def …_full : Prop`, refuted on a concrete witness, and what
-remains provable is `…_partial`. -/
+`Terminal.sdo_read/sdo_write/mbx_send/mbx_recv` after the `fix:` commits 7fef356 and a0eb33f) composed with the
+conformant server of `Ebv.SdoServer`.  Uploads and downloads are exact for every content, every length (expedited,
+one frame, any number of segments), all mailbox sizes, indices, counters and schedules (delays, unrelated mail,
+drain by `mbx_send`); segment toggles alternate from 0 and every message fits its mailbox.  The proofs go by
+induction over the segments that are left. -/
 namespace Ebv.C16
 open Ebv.Bytes Ebv.Sdo Ebv.SdoServer Ebv.SdoSystem Ebv.Consts
 
-/-! ### hypotheses of the theorems -/
+/-! ### one exchange, anywhere in a call, under a schedule -/
 
-/-- the domain of the model: both mailboxes can hold an SDO header, sizes are 16-bit registers,
-index and subindex fit their fields, the mailbox counter is one `MailboxLock` can hold -/
-def Wf (p : Params) : Prop :=
-  16 ≤ p.outSz ∧ 16 ≤ p.inSz ∧ p.inSz < 65536 ∧ p.index < 65536 ∧ subOr1 p < 256
+def singles (rs : List (List UInt8)) : List (List (List UInt8)) := rs.map ([·])
 
-/-- mail of another mailbox protocol, as the master will read it -/
-def unrelated (inSz : Nat) (m : List UInt8) : Bool :=
-  match decodeMail (padTo inSz m) with
-  | .ok (t, _) => t != mbx_COE
-  | .err _ => false
+/-- the master's state when `sched` are the slots and `rs` the answers still to come -/
+def envSt (inSz cnt : Nat) (sched : List Slot) (rs : List (List UInt8)) (tr : List Ev) : St :=
+  ⟨cnt, sched.map (·.full), mkMails inSz sched (singles rs), tr⟩
 
-/-- unrelated mail only, and register 0x805 shows "full" only while such mail is pending -/
-def SchedOk (inSz : Nat) (sched : List Slot) : Prop :=
-  ∀ sl ∈ sched, (∀ m ∈ sl.pre, unrelated inSz m = true) ∧ (sl.full = true → sl.pre ≠ [])
+theorem mkMails_nil' (inSz : Nat) (sched : List Slot) :
+    mkMails inSz sched (singles []) = (hdSlot sched).pre.map (toMail inSz 0) := mkMails_nil inSz sched
 
-/-- responses may be late, but nothing else is in the mailbox -/
-def DelaysOnly (sched : List Slot) : Prop := ∀ sl ∈ sched, sl.pre = [] ∧ sl.full = false
+theorem mkMails_cons (inSz : Nat) (sched : List Slot) (r : List UInt8) (rs : List (List UInt8)) :
+    mkMails inSz sched (singles (r :: rs)) =
+      (hdSlot sched).pre.map (toMail inSz 0) ++ toMail inSz (hdSlot sched).delay r :: mkMails inSz sched.tail (singles rs) := by
+  cases sched <;> simp [mkMails, hdSlot, singles]
 
-/-- the object the call is about exists and holds `v` -/
-def Holds (p : Params) (objs : List Obj) (o : Obj) : Prop :=
-  find objs p.index (subOr1 p) p.sub.isNone = some o
+theorem schedOk_tail (inSz : Nat) (sched : List Slot) (h : SchedOk inSz sched) : SchedOk inSz sched.tail := by
+  cases sched with
+  | nil => exact h
+  | cons sl sls => exact fun x hx => h x (List.mem_cons_of_mem _ hx)
 
-/-! ### the monad -/
+theorem length_le_mkMails (inSz : Nat) (sched : List Slot) (rs : List (List UInt8)) :
+    rs.length ≤ (mkMails inSz sched (singles rs)).length := by
+  induction rs generalizing sched with
+  | nil => simp
+  | cons r rs ih => rw [mkMails_cons]; have := ih sched.tail; simp; omega
 
-theorem bind_ok {α β : Type} {x : M α} {f : α → M β} {s s' : St} {a : α} (h : x s = (s', .ok a)) :
-    (x >>= f) s = f a s' := by
-  show M.bind x f s = _
-  unfold M.bind; rw [h]
-
-theorem bind_err {α β : Type} {x : M α} {f : α → M β} {s s' : St} {e : Err} (h : x s = (s', .err e)) :
-    (x >>= f) s = (s', .err e) := by
-  show M.bind x f s = _
-  unfold M.bind; rw [h]
-
-/-! ### bytes -/
-
-theorem typ_nibble (t c : Nat) (ht : t < 16) : ((t ||| c <<< 4) % 256) &&& 15 = t := by
-  have h1 : t ||| c <<< 4 = c <<< 4 + t := by
-    rw [Nat.or_comm]; exact (Nat.shiftLeft_add_eq_or_of_lt (by omega) c).symm
-  have h2 : (15 : Nat) = 2 ^ 4 - 1 := by decide
-  rw [h1, h2, Nat.and_two_pow_sub_one_eq_mod, Nat.shiftLeft_eq]
-  omega
-
-theorem sdoHdr_length (a b c d : Nat) : (sdoHdr a b c d).length = 6 := by simp [sdoHdr]
-
-theorem u16_sdoHdr0 (coe cmd idx sub : Nat) (rest : List UInt8) (h : coe < 65536) :
-    u16 (sdoHdr coe cmd idx sub ++ rest) 0 = coe := by
-  simp [u16, slice, sdoHdr, encLE, decLE]; omega
-theorem byte_sdoHdr2 (coe cmd idx sub : Nat) (rest : List UInt8) (h : cmd < 256) :
-    byte (sdoHdr coe cmd idx sub ++ rest) 2 = cmd := by
-  simp [byte, sdoHdr, encLE]; omega
-theorem u16_sdoHdr3 (coe cmd idx sub : Nat) (rest : List UInt8) (h : idx < 65536) :
-    u16 (sdoHdr coe cmd idx sub ++ rest) 3 = idx := by
-  simp [u16, slice, sdoHdr, encLE, decLE]; omega
-theorem byte_sdoHdr5 (coe cmd idx sub : Nat) (rest : List UInt8) (h : sub < 256) :
-    byte (sdoHdr coe cmd idx sub ++ rest) 5 = sub := by
-  simp [byte, sdoHdr, encLE]; omega
-theorem drop6_sdoHdr (coe cmd idx sub : Nat) (rest : List UInt8) :
-    (sdoHdr coe cmd idx sub ++ rest).drop 6 = rest := by
-  simp [sdoHdr, encLE]
-
-theorem rd16_eq_u16 (bs : List UInt8) (o : Nat) : rd16 bs o = u16 bs o := by simp [rd16, u16, slice]
-theorem rd32_eq_u32 (bs : List UInt8) (o : Nat) : rd32 bs o = u32 bs o := by simp [rd32, u32, slice]
-theorem rd8_eq_byte (bs : List UInt8) (o : Nat) : rd8 bs o = byte bs o := rfl
-
-theorem sdoBody_eq (svc cmd i sub : Nat) (rest : List UInt8) :
-    sdoBody svc cmd i sub rest = sdoHdr (svc <<< 12) cmd i sub ++ rest := by simp [sdoBody, sdoHdr]
-
-theorem padTo_of_le (n : Nat) (bs : List UInt8) (h : bs.length ≤ n) : padTo n bs = bs ++ zeros (n - bs.length) := by
-  simp only [padTo, zeros, List.take_append, List.take_replicate]
-  rw [List.take_of_length_le h]
-  congr 2
-  omega
-
-/-- the mail the server builds -/
-def srvMail (typ cnt : Nat) (body : List UInt8) : List UInt8 :=
-  encLE 2 body.length ++ encLE 2 0 ++ [0, UInt8.ofNat (typ ||| cnt <<< 4)] ++ body
-
-@[simp] theorem srvMail_length (typ cnt : Nat) (body : List UInt8) : (srvMail typ cnt body).length = 6 + body.length := by
-  simp [srvMail]; omega
-
-theorem mail_eq (s : Srv) (typ : Nat) (body : List UInt8) :
-    mail s typ body = ({ s with cnt := s.cnt % 7 + 1 }, [srvMail typ s.cnt body]) := rfl
-
-theorem decodeMail_srvMail (n typ cnt : Nat) (body : List UInt8) (hn : 6 + body.length ≤ n)
-    (hb : body.length < 65536) (ht : typ < 16) (hty : mbxTypes.contains typ = true) :
-    decodeMail (padTo n (srvMail typ cnt body)) = .ok (typ, body) := by
-  rw [padTo_of_le _ _ (by simp; omega)]
-  have h0 : u16 (srvMail typ cnt body ++ zeros (n - (srvMail typ cnt body).length)) 0 = body.length := by
-    simp [u16, slice, srvMail, encLE, decLE]; omega
-  have h5 : byte (srvMail typ cnt body ++ zeros (n - (srvMail typ cnt body).length)) 5 &&& 15 = typ := by
-    have : byte (srvMail typ cnt body ++ zeros (n - (srvMail typ cnt body).length)) 5 = (typ ||| cnt <<< 4) % 256 := by
-      simp only [srvMail, encLE, List.cons_append, List.nil_append]
-      exact UInt8.toNat_ofNat'
-    rw [this]; exact typ_nibble typ cnt ht
-  have hd : ((srvMail typ cnt body ++ zeros (n - (srvMail typ cnt body).length)).drop 6).take body.length = body := by
-    simp [srvMail, encLE]
-  simp only [decodeMail, h0, h5, hd, hty, if_true]
-
-/-! ### mbx_send, mbx_recv on the states that occur -/
-
-/-- the mailbox message for a payload: header (length, address 0, channel/priority 0, CoE | counter) + payload -/
-def msgOf (cnt : Nat) (body : List UInt8) : List UInt8 := mbxHeader body.length mbx_COE cnt ++ body
-
-@[simp] theorem msgOf_length (cnt : Nat) (body : List UInt8) : (msgOf cnt body).length = 6 + body.length := by
-  simp [msgOf, mbxHeader]; omega
-
-@[simp] theorem sent_append (a b : List Ev) : sent (a ++ b) = sent a ++ sent b := by
-  induction a with
-  | nil => rfl
-  | cons e a ih => cases e <;> simp [sent, ih]
-
-@[simp] theorem sent_polls (d : Nat) : sent (polls d) = [] := by
-  induction d with
-  | zero => rfl
-  | succ d ih => simpa [polls, List.replicate_succ, sent] using ih
-
-def skipEvs (k : Nat) : List Ev := (List.replicate k (polls 0)).flatten
-
-@[simp] theorem sent_skipEvs (k : Nat) : sent (skipEvs k) = [] := by
-  induction k with
-  | zero => rfl
-  | succ k ih => simpa [skipEvs, List.replicate_succ] using ih
-
-theorem mbxSend_nofull (body : List UInt8) (s : St) (hb : body.length < 65536) (hf : s.fulls.headD false = false) :
-    mbxSend body s = ({ s with cnt := s.cnt % mbxMod + 1, fulls := s.fulls.tail,
-                               tr := s.tr ++ [.st0 false, .send (msgOf s.cnt body), .kick] }, .ok ()) := by
-  obtain ⟨cnt, fulls, mails, tr⟩ := s
-  have hb' : ¬ body.length ≥ 65536 := by omega
-  cases fulls with
-  | nil => simp [mbxSend, bind, M.bind, pollOut, nextCounter, emit, hb', msgOf]
-  | cons f fs =>
-    simp at hf; subst hf
-    simp [mbxSend, bind, M.bind, pollOut, nextCounter, emit, hb', msgOf]
-
-theorem mbxSend_full (body : List UInt8) (s : St) (hb : body.length < 65536) (fs : List Bool) (m : Mail) (ms : List Mail)
-    (td : Nat × List UInt8) (hf : s.fulls = true :: fs) (hm : s.mails = m :: ms) (hd : decodeMail m.raw = .ok td) :
-    mbxSend body s = ({ cnt := s.cnt % mbxMod + 1, fulls := fs, mails := ms,
-                        tr := s.tr ++ [.st0 true] ++ polls m.delay ++ [.send (msgOf s.cnt body), .kick] }, .ok ()) := by
-  obtain ⟨cnt, fulls, mails, tr⟩ := s
-  simp at hf hm; subst hf hm
-  have hb' : ¬ body.length ≥ 65536 := by omega
-  simp [mbxSend, bind, M.bind, pollOut, nextCounter, emit, hb', msgOf, discardMail, mbxRecv, hd]
-
-theorem recvCoeL_skip (inSz : Nat) (pre : List (List UInt8)) (tail : List Mail)
-    (h : ∀ m ∈ pre, unrelated inSz m = true) :
-    recvCoeL (pre.map (toMail inSz 0) ++ tail) =
-      (skipEvs pre.length ++ (recvCoeL tail).1, (recvCoeL tail).2.1, (recvCoeL tail).2.2) := by
-  induction pre with
-  | nil => simp [skipEvs]
-  | cons m pre ih =>
-    have hm := h m (by simp)
-    have ih := ih (fun x hx => h x (by simp [hx]))
-    simp only [List.map_cons, List.cons_append, recvCoeL]
-    unfold unrelated at hm
-    simp only [toMail]
-    cases hd : decodeMail (padTo inSz m) with
-    | err e => simp [hd] at hm
-    | ok td =>
-      obtain ⟨t, d⟩ := td
-      simp only [hd] at hm
-      have : t ≠ mbx_COE := by simpa using hm
-      simp only [this, if_false]
-      rw [ih]
-      simp [skipEvs, List.replicate_succ]
-
-/-- the first request of a call under a schedule: what is pending is unrelated mail, one of which the
-`mbx_send` drains when 0x805 says "full" -/
-theorem send_first (inSz cnt : Nat) (fulls : List Bool) (pre : List (List UInt8)) (tail : List Mail) (body : List UInt8)
-    (hpre : ∀ m ∈ pre, unrelated inSz m = true) (hfull : fulls.headD false = true → pre ≠ [])
+/-- `mbx_send` with unrelated mail pending, one of which it drains when 0x805 says "full" -/
+theorem send_at (inSz cnt : Nat) (fulls : List Bool) (pre : List (List UInt8)) (tail : List Mail) (tr : List Ev)
+    (body : List UInt8) (hpre : ∀ m ∈ pre, unrelated inSz m = true) (hfull : fulls.headD false = true → pre ≠ [])
     (hb : body.length < 65536) :
-    ∃ (tr1 : List Ev) (pre' : List (List UInt8)), (∀ m ∈ pre', unrelated inSz m = true) ∧ sent tr1 = [msgOf cnt body] ∧
-      mbxSend body ⟨cnt, fulls, pre.map (toMail inSz 0) ++ tail, []⟩ =
+    ∃ (tr1 : List Ev) (pre' : List (List UInt8)), (∀ m ∈ pre', unrelated inSz m = true) ∧
+      sent tr1 = sent tr ++ [msgOf cnt body] ∧
+      mbxSend body ⟨cnt, fulls, pre.map (toMail inSz 0) ++ tail, tr⟩ =
         (⟨cnt % mbxMod + 1, fulls.tail, pre'.map (toMail inSz 0) ++ tail, tr1⟩, .ok ()) := by
   cases hf : fulls.headD false with
   | false =>
-    refine ⟨[] ++ [.st0 false, .send (msgOf cnt body), .kick], pre, hpre, ?_, mbxSend_nofull body _ hb hf⟩
+    refine ⟨tr ++ [.st0 false, .send (msgOf cnt body), .kick], pre, hpre, ?_, mbxSend_nofull body _ hb hf⟩
     simp [sent]
   | true =>
-    have hne := hfull hf
-    obtain ⟨m, pre', rfl⟩ := List.exists_cons_of_ne_nil hne
+    obtain ⟨m, pre', rfl⟩ := List.exists_cons_of_ne_nil (hfull hf)
     obtain ⟨f, fs, rfl⟩ : ∃ f fs, fulls = f :: fs := by
       cases fulls with
       | nil => simp at hf
@@ -203,644 +61,1111 @@ theorem send_first (inSz cnt : Nat) (fulls : List Bool) (pre : List (List UInt8)
     cases hd : decodeMail (padTo inSz m) with
     | err e => simp [hd] at hm
     | ok td =>
-      refine ⟨[] ++ [.st0 true] ++ polls 0 ++ [.send (msgOf cnt body), .kick], pre',
+      refine ⟨tr ++ [.st0 true] ++ polls 0 ++ [.send (msgOf cnt body), .kick], pre',
         fun x hx => hpre x (by simp [hx]), ?_,
         mbxSend_full body _ hb fs (toMail inSz 0 m) (pre'.map (toMail inSz 0) ++ tail) td rfl (by simp) (by simpa [toMail] using hd)⟩
       simp [sent]
 
-/-- request written, nothing but unrelated mail ever arrives: the call waits, having sent exactly the request -/
-theorem exchange_blocked {α : Type} (inSz cnt : Nat) (fulls : List Bool) (pre : List (List UInt8)) (body : List UInt8)
-    (k : List UInt8 → M α)
-    (hpre : ∀ m ∈ pre, unrelated inSz m = true) (hfull : fulls.headD false = true → pre ≠ [])
-    (hb : body.length < 65536) :
-    ∃ s', (mbxSend body >>= fun _ => recvCoe >>= k) ⟨cnt, fulls, pre.map (toMail inSz 0), []⟩ = (s', .err .blocked) ∧
-      sent s'.tr = [msgOf cnt body] := by
-  obtain ⟨tr1, pre', hpre', hs, h⟩ := send_first inSz cnt fulls pre [] body hpre hfull hb
+theorem exchange_eq (body : List UInt8) : exchange body = (mbxSend body >>= fun _ => recvCoe) := rfl
+
+/-- the request is written and no answer comes: the call waits, having written exactly this request more -/
+theorem exch_blocked (inSz cnt : Nat) (sched : List Slot) (tr : List Ev) (body : List UInt8)
+    (hs : SchedOk inSz sched) (hb : body.length < 65536) :
+    ∃ s', exchange body (envSt inSz cnt sched [] tr) = (s', .err .blocked) ∧ sent s'.tr = sent tr ++ [msgOf cnt body] := by
+  obtain ⟨hpre, hfull⟩ := schedOk_head inSz sched hs
+  rw [← fulls_head] at hfull
+  obtain ⟨tr1, pre', hpre', hsent, h⟩ := send_at inSz cnt (sched.map (·.full)) (hdSlot sched).pre [] tr body hpre hfull hb
   simp only [List.append_nil] at h
-  rw [bind_ok h]
-  have hr : recvCoe ⟨cnt % mbxMod + 1, fulls.tail, pre'.map (toMail inSz 0), tr1⟩ =
-      (⟨cnt % mbxMod + 1, fulls.tail, [], tr1 ++ skipEvs pre'.length⟩, .err .blocked) := by
+  have hr : recvCoe ⟨cnt % mbxMod + 1, (sched.map (·.full)).tail, pre'.map (toMail inSz 0), tr1⟩ =
+      (⟨cnt % mbxMod + 1, (sched.map (·.full)).tail, [], tr1 ++ skipEvs pre'.length⟩, .err .blocked) := by
     have := recvCoeL_skip inSz pre' [] hpre'
     simp only [List.append_nil] at this
     simp [recvCoe, this, recvCoeL]
-  exact ⟨_, bind_err hr, by simp [hs]⟩
+  refine ⟨⟨cnt % mbxMod + 1, (sched.map (·.full)).tail, [], tr1 ++ skipEvs pre'.length⟩, ?_, by simp [hsent]⟩
+  rw [exchange_eq, envSt, mkMails_nil', bind_ok h]
+  exact hr
 
-/-- request written, the answer arrives behind the unrelated mail: the call goes on with the answer's payload -/
-theorem exchange_ok {α : Type} (inSz cnt : Nat) (fulls : List Bool) (pre : List (List UInt8)) (body : List UInt8)
-    (k : List UInt8 → M α) (d : Nat) (resp data : List UInt8) (rest : List Mail)
-    (hpre : ∀ m ∈ pre, unrelated inSz m = true) (hfull : fulls.headD false = true → pre ≠ [])
-    (hb : body.length < 65536) (hresp : decodeMail (padTo inSz resp) = .ok (mbx_COE, data)) :
-    ∃ tr, sent tr = [msgOf cnt body] ∧
-      (mbxSend body >>= fun _ => recvCoe >>= k) ⟨cnt, fulls, pre.map (toMail inSz 0) ++ toMail inSz d resp :: rest, []⟩ =
-        k data ⟨cnt % mbxMod + 1, fulls.tail, rest, tr⟩ := by
-  obtain ⟨tr1, pre', hpre', hs, h⟩ := send_first inSz cnt fulls pre (toMail inSz d resp :: rest) body hpre hfull hb
-  rw [bind_ok h]
-  have hr : recvCoe ⟨cnt % mbxMod + 1, fulls.tail, pre'.map (toMail inSz 0) ++ toMail inSz d resp :: rest, tr1⟩ =
-      (⟨cnt % mbxMod + 1, fulls.tail, rest, tr1 ++ (skipEvs pre'.length ++ polls d)⟩, .ok data) := by
-    have h1 := recvCoeL_skip inSz pre' (toMail inSz d resp :: rest) hpre'
-    have h2 : recvCoeL (toMail inSz d resp :: rest) = (polls d, rest, .ok data) := by
-      simp [recvCoeL, toMail, hresp]
-    rw [h2] at h1
-    simp only [recvCoe, h1]
-  exact ⟨_, by simp [hs], bind_ok hr⟩
+/-- the request is written and the next answer arrives behind the unrelated mail: on to the next slot -/
+theorem exch_ok (inSz cnt : Nat) (sched : List Slot) (tr : List Ev) (body r data : List UInt8) (rs : List (List UInt8))
+    (hs : SchedOk inSz sched) (hb : body.length < 65536) (hdec : decodeMail (padTo inSz r) = .ok (mbx_COE, data)) :
+    ∃ tr', sent tr' = sent tr ++ [msgOf cnt body] ∧
+      exchange body (envSt inSz cnt sched (r :: rs) tr) = (envSt inSz (cnt % mbxMod + 1) sched.tail rs tr', .ok data) := by
+  obtain ⟨hpre, hfull⟩ := schedOk_head inSz sched hs
+  rw [← fulls_head] at hfull
+  obtain ⟨tr1, pre', hpre', hsent, h⟩ := send_at inSz cnt (sched.map (·.full)) (hdSlot sched).pre
+    (toMail inSz (hdSlot sched).delay r :: mkMails inSz sched.tail (singles rs)) tr body hpre hfull hb
+  have h1 := recvCoeL_skip inSz pre' (toMail inSz (hdSlot sched).delay r :: mkMails inSz sched.tail (singles rs)) hpre'
+  have h2 : recvCoeL (toMail inSz (hdSlot sched).delay r :: mkMails inSz sched.tail (singles rs)) =
+      (polls (hdSlot sched).delay, mkMails inSz sched.tail (singles rs), .ok data) := by
+    simp [recvCoeL, toMail, hdec]
+  rw [h2] at h1
+  refine ⟨tr1 ++ (skipEvs pre'.length ++ polls (hdSlot sched).delay), by simp [hsent], ?_⟩
+  rw [exchange_eq, envSt, mkMails_cons, bind_ok h]
+  simp only [recvCoe, h1, envSt]
+  cases sched <;> simp
 
-/-! ### the composed system when one exchange settles the call -/
+/-! ### the composed system along a conversation -/
 
-theorem iter_fix {α : Type} (f : α → α) (x : α) (h : f x = x) (n : Nat) : iter f n x = x := by
-  induction n with
-  | zero => rfl
-  | succ n ih => simp [iter, h, ih]
+theorem serveAll_take (s : Srv) (qs : List (List UInt8)) (k : Nat) :
+    (serveAll s (qs.take k)).2 = (serveAll s qs).2.take k := by
+  induction qs generalizing s k with
+  | nil => simp [serveAll]
+  | cons q qs ih =>
+    cases k with
+    | zero => simp [serveAll]
+    | succ k => simp [serveAll, ih]
 
-theorem serveAll_one (s s1 : Srv) (req : List UInt8) (rs : List (List UInt8)) (h : step s req = (s1, rs)) :
-    serveAll s [req] = (s1, [rs]) := by
-  simp [serveAll, h]
+theorem iter_succ' {α : Type} (f : α → α) (n : Nat) (x : α) : iter f (n + 1) x = f (iter f n x) := by
+  rw [iter_add]; rfl
 
-/-- if the call sends `req` whatever it waits for, the server answers `resp`, and with `resp` in the mailbox the
-call sends nothing more, then that is the run of the composed system -/
-theorem single_exchange (c : Setup) (req resp : List UInt8) (srv1 : Srv) (o : R (List UInt8))
-    (hreq : req.length ≤ c.p.outSz)
-    (h0 : sent (run c.p c.kind c.cnt c.fulls (mkMails c.p.inSz c.sched [])).1 = [req])
-    (hsrv : step c.srv req = (srv1, [resp]))
-    (h1 : sent (run c.p c.kind c.cnt c.fulls (mkMails c.p.inSz c.sched [[resp]])).1 = [req])
-    (ho : (run c.p c.kind c.cnt c.fulls (mkMails c.p.inSz c.sched [[resp]])).2 = o) :
-    ∀ n, 1 ≤ n → (system c n).outcome = o ∧ (system c n).objs = srv1.objs ∧ (system c n).responses = [[resp]] ∧
-      sent (system c n).trace = [req] := by
-  have ht : req.take c.p.outSz = req := List.take_of_length_le hreq
-  have r0 : requests c (mkMails c.p.inSz c.sched []) = [req] := by simp [requests, h0, ht]
-  have r1 : requests c (mkMails c.p.inSz c.sched [[resp]]) = [req] := by simp [requests, h1, ht]
-  have hs := serveAll_one _ _ _ _ hsrv
-  have f0 : round c (mkMails c.p.inSz c.sched []) = mkMails c.p.inSz c.sched [[resp]] := by simp [round, r0, hs]
-  have f1 : round c (mkMails c.p.inSz c.sched [[resp]]) = mkMails c.p.inSz c.sched [[resp]] := by simp [round, r1, hs]
+theorem singles_take (rs : List (List UInt8)) (k : Nat) : (singles rs).take k = singles (rs.take k) := by
+  simp [singles, List.map_take]
+
+/-- if the server answers the requests `Q` one by one with `R`, and the master, given the first `j` answers, writes
+exactly the first `j + 1` requests (all of them when it has all answers), then that is the run of the composed system -/
+theorem conversation (c : Setup) (Q R : List (List UInt8)) (srvN : Srv) (o : Sdo.R (List UInt8))
+    (hlen : Q.length = R.length) (hfit : ∀ q ∈ Q, q.length ≤ c.p.outSz)
+    (hsrv : serveAll c.srv Q = (srvN, singles R))
+    (hM : ∀ j, j ≤ R.length →
+      sent (run c.p c.kind c.cnt c.fulls (mkMails c.p.inSz c.sched (singles (R.take j)))).1 = Q.take (j + 1))
+    (ho : (run c.p c.kind c.cnt c.fulls (mkMails c.p.inSz c.sched (singles R))).2 = o) :
+    ∀ n, R.length ≤ n → (system c n).outcome = o ∧ (system c n).objs = srvN.objs ∧
+      (system c n).responses = singles R ∧ sent (system c n).trace = Q := by
+  have hreq : ∀ j, j ≤ R.length → requests c (mkMails c.p.inSz c.sched (singles (R.take j))) = Q.take (j + 1) := by
+    intro j hj
+    simp only [requests, hM j hj]
+    have hid : ∀ q ∈ Q.take (j + 1), (fun m : List UInt8 => m.take c.p.outSz) q = id q :=
+      fun q hq => List.take_of_length_le (hfit q (List.mem_of_mem_take hq))
+    rw [List.map_congr_left hid, List.map_id]
+  have hround : ∀ j, j ≤ R.length → round c (mkMails c.p.inSz c.sched (singles (R.take j))) =
+      mkMails c.p.inSz c.sched (singles (R.take (j + 1))) := by
+    intro j hj
+    simp only [round, hreq j hj, serveAll_take, hsrv, singles_take]
+  have hafter : ∀ j, j ≤ R.length → mailsAfter c j = mkMails c.p.inSz c.sched (singles (R.take j)) := by
+    intro j
+    induction j with
+    | zero => intro _; simp [mailsAfter, iter, singles]
+    | succ j ih =>
+      intro hj
+      have := ih (by omega)
+      unfold mailsAfter at this ⊢
+      rw [iter_succ', this, hround j (by omega)]
+  have hRt : R.take R.length = R := List.take_length
+  have hRt1 : R.take (R.length + 1) = R := List.take_of_length_le (by omega)
+  have hQt : Q.take (R.length + 1) = Q := List.take_of_length_le (by omega)
+  have hm : mailsAfter c R.length = mkMails c.p.inSz c.sched (singles R) := by
+    rw [hafter _ (Nat.le_refl _), hRt]
+  have hfix : round c (mailsAfter c R.length) = mailsAfter c R.length := by
+    have := hround _ (Nat.le_refl R.length)
+    rw [hRt, hRt1] at this
+    rw [hm, this]
   intro n hn
-  obtain ⟨m, rfl⟩ : ∃ m, n = m + 1 := ⟨n - 1, by omega⟩
-  have hm : mailsAfter c (m + 1) = mkMails c.p.inSz c.sched [[resp]] := by
-    simp [mailsAfter, iter, f0, iter_fix _ _ f1]
-  simp only [system, resultOf, hm, r1, hs]
-  exact ⟨ho, trivial, trivial, h1⟩
+  rw [system_stable c R.length hfix n hn]
+  have hq : requests c (mkMails c.p.inSz c.sched (singles R)) = Q := by
+    have := hreq R.length (Nat.le_refl _)
+    rwa [hRt, hQt] at this
+  have hs : sent (run c.p c.kind c.cnt c.fulls (mkMails c.p.inSz c.sched (singles R))).1 = Q := by
+    have := hM R.length (Nat.le_refl _)
+    rwa [hRt, hQt] at this
+  simp only [system, resultOf, hm, hq, hsrv]
+  exact ⟨ho, trivial, trivial, hs⟩
 
-/-! ### the server on the master's messages -/
+/-! ### upload segments: what the server sends and what the master makes of it -/
 
-theorem msgOf_parts (cnt : Nat) (body : List UInt8) (hb : body.length < 65536) :
-    rd16 (msgOf cnt body) 0 = body.length ∧ rd8 (msgOf cnt body) 5 &&& 0xf = mbx_COE ∧
-      ((msgOf cnt body).drop 6).take body.length = body := by
-  refine ⟨?_, ?_, ?_⟩
-  · simp [rd16, msgOf, mbxHeader, encLE, decLE]; omega
-  · have : rd8 (msgOf cnt body) 5 = (mbx_COE ||| cnt <<< 4) % 256 := by
-      simp only [msgOf, mbxHeader, encLE, List.cons_append, List.nil_append]
-      exact UInt8.toNat_ofNat'
-    rw [this]; exact typ_nibble mbx_COE cnt (by decide)
-  · simp [msgOf, mbxHeader, encLE]
+/-- padding of a segment below 7 bytes -/
+def padN (n : Nat) : Nat := if n < 7 then 7 - n else 0
 
-/-- a CoE SDO request of the master that fits the receive mailbox reaches the SDO service it names -/
-theorem step_sdo (s : Srv) (cnt : Nat) (body : List UInt8) (h10 : 10 ≤ body.length) (hfit : 6 + body.length ≤ s.outSz)
-    (hb : body.length < 65536) (hsvc : u16 body 0 >>> 12 = 2) :
-    step s (msgOf cnt body) =
-      match byte body 2 >>> 5 with
-      | 1 => initDownload s (byte body 2) body
-      | 0 => downloadSegment s (byte body 2) body.length body
-      | 2 => initUpload s (byte body 2) body
-      | 3 => uploadSegment s (byte body 2)
-      | 4 => ({ s with xfer := .idle }, [])
-      | _ => abort s 0 0 abCmd := by
-  obtain ⟨h1, h2, h3⟩ := msgOf_parts cnt body hb
-  have hl : ¬ (msgOf cnt body).length < 6 := by simp
-  have hf : ¬ 6 + body.length > s.outSz := by omega
-  have ht : ¬ mbx_COE ≠ mbxCoE := by decide
-  have h2' : ¬ body.length < 2 := by omega
-  have h10' : ¬ body.length < 10 := by omega
-  have hs : ¬ rd16 body 0 >>> 12 ≠ svcSdoReq := by rw [rd16_eq_u16, hsvc]; decide
-  unfold step
-  have ht' : ¬ byte (msgOf cnt body) 5 &&& 15 ≠ mbxCoE := by rw [← rd8_eq_byte, h2]; exact ht
-  simp only [hl, if_false, h1, h3, hf, h2', h10', Nat.sub_self, zeros, List.replicate_zero, List.append_nil, hs,
-    rd8_eq_byte, ht']
-  rfl
+/-- the payload of an upload segment response: toggle, unused bytes, last flag; data padded to 7 bytes -/
+def segBody (stog : Nat) (seg : List UInt8) (last : Bool) : List UInt8 :=
+  encLE 2 (svcSdoRes <<< 12) ++ [UInt8.ofNat (stog <<< 4 ||| padN seg.length <<< 1 ||| (if last then 1 else 0))] ++ seg
+    ++ zeros (padN seg.length)
 
-/-! ### upload: the request, the server's answer, what the master makes of it -/
+theorem segCmd_bits : ∀ stog < 2, ∀ n < 8, ∀ l < 2,
+    (stog <<< 4 ||| n <<< 1 ||| l) < 256 ∧ (stog <<< 4 ||| n <<< 1 ||| l) &&& 0xe0 = 0 ∧
+    ((stog <<< 4 ||| n <<< 1 ||| l) >>> 1) &&& 7 = n ∧ (stog <<< 4 ||| n <<< 1 ||| l) &&& 1 = l := by decide
 
-/-- the command byte of the upload request -/
-def upCmd (p : Params) : Nat := if p.sub.isNone then od_UP_REQ_CA else od_UP_REQ
+theorem segBody_length (stog : Nat) (seg : List UInt8) (last : Bool) :
+    (segBody stog seg last).length = 3 + seg.length + padN seg.length := by
+  simp [segBody]; omega
 
-theorem upReq_eq (p : Params) : upReq p = sdoHdr (coe_SDOREQ <<< 12) (upCmd p) p.index (subOr1 p) ++ zeros 4 := rfl
+/-- cutting the padding where it is: a padded segment has mailbox length 10 -/
+theorem trim_seg (a b c : UInt8) (seg : List UInt8) :
+    let data := a :: b :: c :: (seg ++ zeros (padN seg.length))
+    let data' := if data.length = 10 then data.take (10 - padN seg.length) else data
+    data'.drop 3 = seg ∧ data'.length - 3 = seg.length := by
+  by_cases h7 : seg.length < 7
+  · have hp : padN seg.length = 7 - seg.length := by simp [padN, h7]
+    have h10 : (a :: b :: c :: (seg ++ zeros (7 - seg.length))).length = 10 := by simp; omega
+    have ht : 10 - (7 - seg.length) = seg.length + 3 := by omega
+    simp only [hp, h10, if_true, ht]
+    simp
+  · have hp : padN seg.length = 0 := by simp [padN, h7]
+    simp only [hp, zeros, List.replicate_zero, List.append_nil, Nat.sub_zero]
+    split
+    · rename_i h10
+      have : seg.length = 7 := by simp at h10; omega
+      simp [this, List.take_of_length_le (Nat.le_of_eq this)]
+    · simp
 
-@[simp] theorem upReq_length (p : Params) : (upReq p).length = 10 := by simp [upReq, sdoHdr_length]
+theorem segBody_cons (stog : Nat) (seg : List UInt8) (last : Bool) :
+    segBody stog seg last = UInt8.ofNat (svcSdoRes <<< 12 % 256) :: UInt8.ofNat (svcSdoRes <<< 12 / 256 % 256) ::
+      UInt8.ofNat (stog <<< 4 ||| padN seg.length <<< 1 ||| (if last then 1 else 0)) :: (seg ++ zeros (padN seg.length)) := by
+  simp only [segBody, encLE, List.cons_append, List.nil_append]
 
-theorem upCmd_facts (p : Params) : upCmd p < 256 ∧ upCmd p >>> 5 = 2 ∧ (upCmd p &&& 0x10 != 0) = p.sub.isNone := by
-  unfold upCmd
-  cases p.sub <;> simp <;> decide
+/-- what the repaired `sdo_read` extracts from a segment response -/
+theorem seg_decode (stog : Nat) (seg : List UInt8) (last : Bool) (hs : stog < 2) :
+    let data := segBody stog seg last
+    let sdocmd := byte data 2
+    let data' := if data.length = 10 then data.take (10 - ((sdocmd >>> 1) &&& 7)) else data
+    ¬ data.length < 3 ∧ ¬ u16 data 0 >>> 12 ≠ coe_SDORES ∧ ¬ sdocmd &&& 0xe0 ≠ 0 ∧
+      data'.drop 3 = seg ∧ data'.length - 3 = seg.length ∧ (sdocmd &&& 1 ≠ 0 ↔ last = true) := by
+  have hn : padN seg.length < 8 := by unfold padN; split <;> omega
+  have hl : (if last then 1 else 0 : Nat) < 2 := by split <;> omega
+  obtain ⟨b1, b2, b3, b4⟩ := segCmd_bits stog hs (padN seg.length) hn (if last then 1 else 0) hl
+  have hcmd : byte (segBody stog seg last) 2 = stog <<< 4 ||| padN seg.length <<< 1 ||| (if last then 1 else 0) := by
+    have : byte (segBody stog seg last) 2 = (stog <<< 4 ||| padN seg.length <<< 1 ||| (if last then 1 else 0)) % 256 := by
+      rw [segBody_cons]; exact UInt8.toNat_ofNat'
+    rw [this]; omega
+  have h16 : u16 (segBody stog seg last) 0 >>> 12 = coe_SDORES := by
+    have : u16 (segBody stog seg last) 0 = svcSdoRes <<< 12 := by
+      simp [u16, slice, segBody, encLE, decLE]; decide
+    rw [this]; decide
+  have htrim := trim_seg (UInt8.ofNat (svcSdoRes <<< 12 % 256)) (UInt8.ofNat (svcSdoRes <<< 12 / 256 % 256))
+    (UInt8.ofNat (stog <<< 4 ||| padN seg.length <<< 1 ||| (if last then 1 else 0))) seg
+  rw [← segBody_cons] at htrim
+  intro data sdocmd data'
+  have e1 : sdocmd = stog <<< 4 ||| padN seg.length <<< 1 ||| (if last then 1 else 0) := hcmd
+  have e2 : data' = if (segBody stog seg last).length = 10 then (segBody stog seg last).take (10 - padN seg.length)
+      else segBody stog seg last := by
+    show (if data.length = 10 then data.take (10 - ((sdocmd >>> 1) &&& 7)) else data) = _
+    rw [e1, b3]
+  refine ⟨?_, ?_, ?_, ?_, ?_, ?_⟩
+  · show ¬ (segBody stog seg last).length < 3
+    rw [segBody_length]; omega
+  · rw [show u16 data 0 >>> 12 = coe_SDORES from h16]; simp
+  · rw [e1, b2]; simp
+  · rw [e2]; exact htrim.1
+  · rw [e2]; exact htrim.2
+  · rw [e1, b4]; cases last <;> simp
 
-/-- what a conformant server answers to an initiate-upload request for an object it has -/
-def uploadAnswer (s : Srv) (p : Params) (o : Obj) : Srv × List (List UInt8) :=
-  if 1 ≤ o.val.length ∧ o.val.length ≤ 4 then
-    respond { s with xfer := .idle } (0x43 ||| ((4 - o.val.length) <<< 2) ||| caBit p.sub.isNone) p.index (subOr1 p)
-      (o.val ++ zeros (4 - o.val.length))
-  else
-    respond (if o.val.length > s.inSz - 16
-        then { s with xfer := .up p.index (subOr1 p) p.sub.isNone (o.val.drop (s.inSz - 16)) 0 }
-        else { s with xfer := .idle })
-      (0x41 ||| caBit p.sub.isNone) p.index (subOr1 p) (encLE 4 o.val.length ++ o.val.take (s.inSz - 16))
+/-- the next value of the master's mailbox counter -/
+def cntNext (c : Nat) : Nat := c % mbxMod + 1
 
-theorem step_upload (s : Srv) (p : Params) (hwf : Wf p) (cnt : Nat) (o : Obj) (hsz : s.outSz = p.outSz)
-    (hfind : find s.objs p.index (subOr1 p) p.sub.isNone = some o) :
-    step s (msgOf cnt (upReq p)) = uploadAnswer s p o := by
-  obtain ⟨ho, hi, hi2, hidx, hsub⟩ := hwf
-  obtain ⟨c1, c2, c3⟩ := upCmd_facts p
-  have hsvc : u16 (upReq p) 0 >>> 12 = 2 := by
-    rw [upReq_eq, u16_sdoHdr0 _ _ _ _ _ (by decide)]; decide
-  rw [step_sdo s cnt (upReq p) (by simp) (by simp; omega) (by simp) hsvc]
-  have hcmd : byte (upReq p) 2 = upCmd p := by rw [upReq_eq, byte_sdoHdr2 _ _ _ _ _ c1]
-  rw [hcmd, c2]
-  simp only [initUpload, rd16_eq_u16, rd8_eq_byte, c3]
-  rw [upReq_eq, u16_sdoHdr3 _ _ _ _ _ hidx, byte_sdoHdr5 _ _ _ _ _ hsub]
-  simp only [hfind, uploadAnswer]
+/-- the first `k` upload segment requests: toggles alternate from `stog`, counters follow on -/
+def segReqMsgs (p : Params) : Nat → Nat → Nat → List (List UInt8)
+  | 0, _, _ => []
+  | k + 1, cnt, stog => msgOf cnt (segUpReq p (16 * stog)) :: segReqMsgs p k (cntNext cnt) (stog ^^^ 1)
 
-theorem upExpCmd_facts (n : Nat) (h1 : 1 ≤ n) (h4 : n ≤ 4) (ca : Bool) :
-    (0x43 ||| ((4 - n) <<< 2) ||| caBit ca) < 256 ∧ (0x43 ||| ((4 - n) <<< 2) ||| caBit ca) &&& 2 ≠ 0 ∧
-      10 - (((0x43 ||| ((4 - n) <<< 2) ||| caBit ca) >>> 2) &&& 3) = 6 + n := by
-  have : n = 1 ∨ n = 2 ∨ n = 3 ∨ n = 4 := by omega
-  rcases this with rfl | rfl | rfl | rfl <;> cases ca <;> decide
+/-- the server's upload segment mails for the bytes `rest` that are left (`m` bounds their number) -/
+def segMails (inSz : Nat) : Nat → Nat → Nat → List UInt8 → List (List UInt8)
+  | 0, _, _, _ => []
+  | m + 1, scnt, stog, rest =>
+    if rest = [] then []
+    else srvMail mbxCoE scnt (segBody stog (rest.take (inSz - 9)) (rest.drop (inSz - 9)).isEmpty) ::
+      segMails inSz m (scnt % 7 + 1) (stog ^^^ 1) (rest.drop (inSz - 9))
 
-theorem coeRes_facts : svcSdoRes <<< 12 < 65536 ∧ (svcSdoRes <<< 12) >>> 12 = coe_SDORES := by decide
+theorem segMails_nil (inSz m scnt stog : Nat) : segMails inSz m scnt stog [] = [] := by
+  cases m <;> simp [segMails]
 
-/-- an expedited upload response is unpacked to exactly the object's bytes -/
-theorem readCont_expedited (p : Params) (hwf : Wf p) (v : List UInt8) (h1 : 1 ≤ v.length) (h4 : v.length ≤ 4)
-    (ca : Bool) (s : St) :
-    readCont p (sdoBody svcSdoRes (0x43 ||| ((4 - v.length) <<< 2) ||| caBit ca) p.index (subOr1 p)
-      (v ++ zeros (4 - v.length))) s = (s, .ok v) := by
-  obtain ⟨ho, hi, hi2, hidx, hsub⟩ := hwf
-  obtain ⟨c1, c2, c3⟩ := upExpCmd_facts v.length h1 h4 ca
+theorem segUpReq_length (p : Params) (t : Nat) : (segUpReq p t).length = 10 := by simp [segUpReq, sdoHdr_length]
+
+theorem segMail_decode (inSz scnt stog : Nat) (seg : List UInt8) (last : Bool) (h16 : 16 ≤ inSz) (hlt : inSz < 65536)
+    (hseg : seg.length ≤ inSz - 9) :
+    decodeMail (padTo inSz (srvMail mbxCoE scnt (segBody stog seg last))) = .ok (mbx_COE, segBody stog seg last) := by
+  have hcoe : mbxCoE = mbx_COE := by decide
+  have hl : (segBody stog seg last).length ≤ inSz - 6 := by
+    rw [segBody_length]; unfold padN; split <;> omega
+  rw [← hcoe]
+  exact decodeMail_srvMail _ _ _ _ (by omega) (by omega) (by decide) (by decide)
+
+theorem tog_xor (stog : Nat) (h : stog < 2) : 16 * stog ^^^ 0x10 = 16 * (stog ^^^ 1) ∧ stog ^^^ 1 < 2 := by
+  have : stog = 0 ∨ stog = 1 := by omega
+  rcases this with rfl | rfl <;> decide
+
+theorem finish_run (size : Nat) (ret : List (List UInt8)) (s : St) : finish size ret size s = (s, .ok ret.flatten) := by
+  simp [finish, pure, M.pure]
+
+theorem segLoop_done (p : Params) (f size : Nat) (ret : List (List UInt8)) (t : Nat) (s : St) :
+    segLoop p (f + 1) size ret size t s = (s, .ok ret.flatten) := by
+  simp [segLoop, finish_run]
+
+/-- **the upload segment loop against the server's mails**: with the first `j` of the mails that are due, the loop
+writes the next `j + 1` segment requests and waits, or — having them all — returns what it had plus all of `rest` -/
+theorem segLoop_run (p : Params) (hwf : Wf p) : ∀ (m : Nat) (rest : List UInt8) (j fuel size : Nat)
+    (ret : List (List UInt8)) (retsize stog cnt scnt : Nat) (sched : List Slot) (tr : List Ev),
+    rest.length ≤ m → stog < 2 → SchedOk p.inSz sched → retsize + rest.length = size →
+    ((segMails p.inSz m scnt stog rest).take j).length < fuel →
+    ∃ s', segLoop p fuel size ret retsize (16 * stog)
+        (envSt p.inSz cnt sched ((segMails p.inSz m scnt stog rest).take j) tr) =
+          (s', if (segMails p.inSz m scnt stog rest).length ≤ j then .ok (ret.flatten ++ rest) else .err .blocked) ∧
+      sent s'.tr = sent tr ++ segReqMsgs p (min (j + 1) (segMails p.inSz m scnt stog rest).length) cnt stog := by
+  obtain ⟨ho, hi, hi2, hidx, hsub, ho2⟩ := hwf
+  intro m
+  induction m with
+  | zero =>
+    intro rest j fuel size ret retsize stog cnt scnt sched tr hm _ _ hsz hf
+    have hr : rest = [] := List.eq_nil_of_length_eq_zero (by omega)
+    subst hr
+    obtain ⟨f, rfl⟩ : ∃ f, fuel = f + 1 := ⟨fuel - 1, by omega⟩
+    simp at hsz; subst hsz
+    exact ⟨envSt p.inSz cnt sched [] tr, by simp [segMails, segLoop_done], by simp [segMails, segReqMsgs, envSt]⟩
+  | succ m ih =>
+    intro rest j fuel size ret retsize stog cnt scnt sched tr hm hst hs hsz hf
+    obtain ⟨f, rfl⟩ : ∃ f, fuel = f + 1 := ⟨fuel - 1, by omega⟩
+    by_cases hr : rest = []
+    · subst hr
+      simp at hsz; subst hsz
+      exact ⟨envSt p.inSz cnt sched [] tr, by simp [segMails, segLoop_done], by simp [segMails, segReqMsgs, envSt]⟩
+    · have hpos : 0 < rest.length := List.length_pos_iff.mpr hr
+      have hlt : retsize < size := by omega
+      have hb : (segUpReq p (16 * stog)).length < 65536 := by rw [segUpReq_length]; omega
+      simp only [segMails, hr, if_false] at hf ⊢
+      unfold segLoop
+      simp only [hlt, if_true]
+      cases j with
+      | zero =>
+        obtain ⟨s', h1, h2⟩ := exch_blocked p.inSz cnt sched tr (segUpReq p (16 * stog)) hs hb
+        refine ⟨s', ?_, ?_⟩
+        · simp only [List.take_zero, bind_err h1]; simp
+        · rw [h2]; simp [segReqMsgs]
+      | succ j =>
+        have hseg : (rest.take (p.inSz - 9)).length ≤ p.inSz - 9 := by simp; omega
+        have hdec := segMail_decode p.inSz scnt stog (rest.take (p.inSz - 9)) (rest.drop (p.inSz - 9)).isEmpty hi hi2 hseg
+        simp only [List.take_succ_cons] at hf ⊢
+        obtain ⟨tr', ht, hx⟩ := exch_ok p.inSz cnt sched tr (segUpReq p (16 * stog)) _ _
+          ((segMails p.inSz m (scnt % 7 + 1) (stog ^^^ 1) (rest.drop (p.inSz - 9))).take j) hs hb hdec
+        rw [bind_ok hx]
+        obtain ⟨d1, d2, d3, d4, d5, d6⟩ := seg_decode stog (rest.take (p.inSz - 9)) (rest.drop (p.inSz - 9)).isEmpty hst
+        simp only [d1, d2, d3, if_false, d4, d5]
+        obtain ⟨x1, x2⟩ := tog_xor stog hst
+        by_cases hlast : (rest.drop (p.inSz - 9)).isEmpty = true
+        · have hl : (byte (segBody stog (rest.take (p.inSz - 9)) (rest.drop (p.inSz - 9)).isEmpty) 2 &&& 1 ≠ 0) := d6.mpr hlast
+          have hnil : rest.drop (p.inSz - 9) = [] := List.isEmpty_iff.mp hlast
+          have htake : rest.take (p.inSz - 9) = rest := by
+            have := List.take_append_drop (p.inSz - 9) rest; rw [hnil] at this; simpa using this
+          rw [if_pos hl]
+          simp only [hnil, segMails_nil, htake, List.take_nil]
+          rw [hsz, finish_run]
+          exact ⟨envSt p.inSz (cnt % mbxMod + 1) sched.tail [] tr', by simp, by simp [envSt, ht, segReqMsgs]⟩
+        · have hl : ¬ (byte (segBody stog (rest.take (p.inSz - 9)) (rest.drop (p.inSz - 9)).isEmpty) 2 &&& 1 ≠ 0) :=
+            fun h => hlast (d6.mp h)
+          rw [if_neg hl, x1]
+          have hdl : (rest.drop (p.inSz - 9)).length ≤ m := by simp; omega
+          have hsz' : retsize + (rest.take (p.inSz - 9)).length + (rest.drop (p.inSz - 9)).length = size := by
+            simp; omega
+          obtain ⟨s', r1, r2⟩ := ih (rest.drop (p.inSz - 9)) j f size (ret ++ [rest.take (p.inSz - 9)])
+            (retsize + (rest.take (p.inSz - 9)).length) (stog ^^^ 1) (cntNext cnt) (scnt % 7 + 1) sched.tail tr'
+            hdl x2 (schedOk_tail _ _ hs) hsz' (by simp at hf ⊢; omega)
+          refine ⟨s', ?_, ?_⟩
+          · rw [show cnt % mbxMod + 1 = cntNext cnt from rfl, r1]
+            simp [List.take_append_drop, Nat.succ_le_succ_iff]
+          · rw [r2, ht]
+            simp [segReqMsgs, Nat.succ_min_succ]
+
+/-- a conformant server answers an upload segment request with the next `inSz − 9` bytes -/
+theorem step_upseg (s : Srv) (p : Params) (hwf : Wf p) (c stog i sub : Nat) (ca : Bool) (rest : List UInt8)
+    (hsz : s.outSz = p.outSz) (hst : stog < 2) (hx : s.xfer = .up i sub ca rest stog) :
+    step s (msgOf c (segUpReq p (16 * stog))) =
+      ({ s with cnt := s.cnt % 7 + 1,
+                xfer := if (rest.drop (s.inSz - 9)).isEmpty then .idle else .up i sub ca (rest.drop (s.inSz - 9)) (stog ^^^ 1) },
+       [srvMail mbxCoE s.cnt (segBody stog (rest.take (s.inSz - 9)) (rest.drop (s.inSz - 9)).isEmpty)]) := by
+  obtain ⟨ho, hi, hi2, hidx, hsub, ho2⟩ := hwf
+  have hc : od_SEG_UP_REQ + 16 * stog < 256 ∧ (od_SEG_UP_REQ + 16 * stog) >>> 5 = 3 ∧
+      ((od_SEG_UP_REQ + 16 * stog) >>> 4) &&& 1 = stog := by
+    have : stog = 0 ∨ stog = 1 := by omega
+    rcases this with rfl | rfl <;> decide
+  have hsvc : u16 (segUpReq p (16 * stog)) 0 >>> 12 = 2 := by
+    unfold segUpReq; rw [u16_sdoHdr0 _ _ _ _ _ (by decide)]; decide
+  have hcmd : byte (segUpReq p (16 * stog)) 2 = od_SEG_UP_REQ + 16 * stog := by
+    unfold segUpReq; rw [byte_sdoHdr2 _ _ _ _ _ hc.1]
+  rw [step_sdo s c _ (by rw [segUpReq_length]; omega) (by rw [segUpReq_length]; omega) (by rw [segUpReq_length]; omega) hsvc,
+    hcmd, hc.2.1]
+  simp only [uploadSegment, hx, hc.2.2, ne_eq, not_true_eq_false, if_false, mail_eq]
+  cases (rest.drop (s.inSz - 9)).isEmpty <;> simp [segBody, padN]
+
+/-- the server answers the segment requests one by one with `segMails`, and keeps its objects -/
+theorem serve_segs (p : Params) (hwf : Wf p) : ∀ (m : Nat) (rest : List UInt8) (s : Srv) (stog cnt i sub : Nat) (ca : Bool),
+    rest.length ≤ m → stog < 2 → s.outSz = p.outSz → s.inSz = p.inSz →
+    s.xfer = (if rest = [] then .idle else .up i sub ca rest stog) →
+    ∃ sN, serveAll s (segReqMsgs p (segMails p.inSz m s.cnt stog rest).length cnt stog) =
+        (sN, singles (segMails p.inSz m s.cnt stog rest)) ∧ sN.objs = s.objs := by
+  intro m
+  induction m with
+  | zero => intro rest s stog cnt i sub ca _ _ _ _ _; exact ⟨s, by simp [segMails, segReqMsgs, serveAll, singles], rfl⟩
+  | succ m ih =>
+    intro rest s stog cnt i sub ca hm hst ho hi hx
+    by_cases hr : rest = []
+    · subst hr; exact ⟨s, by simp [segMails, segReqMsgs, serveAll, singles], rfl⟩
+    · simp only [hr, if_false] at hx
+      have hstep := step_upseg s p hwf cnt stog i sub ca rest ho hst hx
+      rw [hi] at hstep
+      simp only [segMails, hr, if_false, List.length_cons, segReqMsgs, serveAll, hstep]
+      have hdl : (rest.drop (p.inSz - 9)).length ≤ m := by
+        have := List.length_pos_iff.mpr hr
+        have := hwf.2.1
+        simp; omega
+      obtain ⟨sN, h1, h2⟩ := ih (rest.drop (p.inSz - 9))
+        ⟨s.outSz, p.inSz, s.objs, s.cnt % 7 + 1,
+          if (rest.drop (p.inSz - 9)).isEmpty then .idle else .up i sub ca (rest.drop (p.inSz - 9)) (stog ^^^ 1)⟩
+        (stog ^^^ 1) (cntNext cnt) i sub ca hdl (tog_xor stog hst).2 ho rfl
+        (by cases h : rest.drop (p.inSz - 9) <;> simp)
+      simp only [] at h1
+      refine ⟨sN, ?_, h2⟩
+      rw [h1]
+      simp [singles]
+
+/-! ### uploads of every length -/
+
+theorem segReqMsgs_take (p : Params) (n k cnt stog : Nat) :
+    (segReqMsgs p n cnt stog).take k = segReqMsgs p (min k n) cnt stog := by
+  induction n generalizing k cnt stog with
+  | zero => simp [segReqMsgs]
+  | succ n ih =>
+    cases k with
+    | zero => simp [segReqMsgs]
+    | succ k => simp [segReqMsgs, ih, Nat.succ_min_succ]
+
+theorem segReqMsgs_length (p : Params) (n cnt stog : Nat) : (segReqMsgs p n cnt stog).length = n := by
+  induction n generalizing cnt stog with
+  | zero => rfl
+  | succ n ih => simp [segReqMsgs, ih]
+
+theorem sdoRead_eq (p : Params) : sdoRead p = (exchange (upReq p) >>= fun data => readCont p data) := rfl
+
+/-- the payload of the normal initiate-upload response -/
+def upNormBody (p : Params) (v : List UInt8) : List UInt8 :=
+  sdoBody svcSdoRes (0x41 ||| caBit p.sub.isNone) p.index (subOr1 p) (encLE 4 v.length ++ v.take (p.inSz - 16))
+
+/-- with a normal response `sdo_read` enters the segment loop with the bytes of the response -/
+theorem readCont_normal (p : Params) (hwf : Wf p) (v : List UInt8) (hv : v.length < 256 ^ 4) (s : St) :
+    readCont p (upNormBody p v) s = segStart p v.length (v.take (p.inSz - 16)) s := by
+  obtain ⟨ho, hi, hi2, hidx, hsub, ho2⟩ := hwf
   obtain ⟨r1, r2⟩ := coeRes_facts
+  have c1 : (0x41 ||| caBit p.sub.isNone) < 256 ∧ (0x41 ||| caBit p.sub.isNone) &&& 2 = 0 := by
+    cases p.sub.isNone <;> decide
+  unfold upNormBody
   rw [sdoBody_eq]
-  have hlen : ¬ (sdoHdr (svcSdoRes <<< 12) (0x43 ||| ((4 - v.length) <<< 2) ||| caBit ca) p.index (subOr1 p) ++
-      (v ++ zeros (4 - v.length))).length < 10 := by
-    simp [sdoHdr_length]; omega
-  unfold readCont
-  simp only [hlen, if_false, u16_sdoHdr0 _ _ _ _ _ r1, byte_sdoHdr2 _ _ _ _ _ c1, u16_sdoHdr3 _ _ _ _ _ hidx, r2, c3]
-  simp only [ne_eq, not_true_eq_false, if_false, c2, not_false_eq_true]
-  simp [slice, drop6_sdoHdr, M.pure, pure]
-
-theorem u32_sdoHdr6 (coe cmd idx sub n : Nat) (rest : List UInt8) (h : n < 256 ^ 4) :
-    u32 (sdoHdr coe cmd idx sub ++ (encLE 4 n ++ rest)) 6 = n := by
-  have : slice (sdoHdr coe cmd idx sub ++ (encLE 4 n ++ rest)) 6 (6 + 4) = encLE 4 n := by
-    simp [slice, drop6_sdoHdr]
-  rw [u32, this, decLE_encLE 4 n h]
-
-theorem drop10_sdoHdr (coe cmd idx sub n : Nat) (rest : List UInt8) :
-    (sdoHdr coe cmd idx sub ++ (encLE 4 n ++ rest)).drop 10 = rest := by
-  have : (sdoHdr coe cmd idx sub ++ (encLE 4 n ++ rest)).drop 10
-      = ((sdoHdr coe cmd idx sub ++ (encLE 4 n ++ rest)).drop 6).drop 4 := by simp
-  rw [this, drop6_sdoHdr]; simp
-
-/-- a normal upload response that carries the whole object is unpacked to exactly the object's bytes -/
-theorem readCont_normal (p : Params) (hwf : Wf p) (v : List UInt8) (hv : v.length < 256 ^ 4) (ca : Bool) (s : St) :
-    readCont p (sdoBody svcSdoRes (0x41 ||| caBit ca) p.index (subOr1 p) (encLE 4 v.length ++ v)) s = (s, .ok v) := by
-  obtain ⟨ho, hi, hi2, hidx, hsub⟩ := hwf
-  obtain ⟨r1, r2⟩ := coeRes_facts
-  have c1 : (0x41 ||| caBit ca) < 256 ∧ (0x41 ||| caBit ca) &&& 2 = 0 := by cases ca <;> decide
-  rw [sdoBody_eq]
-  have hlen : ¬ (sdoHdr (svcSdoRes <<< 12) (0x41 ||| caBit ca) p.index (subOr1 p) ++ (encLE 4 v.length ++ v)).length < 10 := by
+  have hlen : ¬ (sdoHdr (svcSdoRes <<< 12) (0x41 ||| caBit p.sub.isNone) p.index (subOr1 p) ++
+      (encLE 4 v.length ++ v.take (p.inSz - 16))).length < 10 := by
     simp [sdoHdr_length]; omega
   unfold readCont
   simp only [hlen, if_false, u16_sdoHdr0 _ _ _ _ _ r1, byte_sdoHdr2 _ _ _ _ _ c1.1, u16_sdoHdr3 _ _ _ _ _ hidx, r2, c1.2,
     u32_sdoHdr6 _ _ _ _ _ _ hv, drop10_sdoHdr]
-  simp only [ne_eq, not_true_eq_false, if_false]
-  simp [segStart, segLoop, finish, joinItems, M.pure, pure]
+  simp
 
-/-! ### schedules: only the first slot matters when one exchange settles the call -/
-
-def hdSlot (sched : List Slot) : Slot := sched.headD ⟨false, [], 0⟩
-
-theorem mkMails_nil (inSz : Nat) (sched : List Slot) :
-    mkMails inSz sched [] = (hdSlot sched).pre.map (toMail inSz 0) := by
-  cases sched <;> simp [mkMails, hdSlot]
-
-theorem mkMails_one (inSz : Nat) (sched : List Slot) (resp : List UInt8) :
-    mkMails inSz sched [[resp]] =
-      (hdSlot sched).pre.map (toMail inSz 0) ++ toMail inSz (hdSlot sched).delay resp :: mkMails inSz sched.tail [] := by
-  cases sched <;> simp [mkMails, hdSlot]
-
-theorem fulls_head (sched : List Slot) : (sched.map (·.full)).headD false = (hdSlot sched).full := by
-  cases sched <;> simp [hdSlot]
-
-theorem schedOk_head (inSz : Nat) (sched : List Slot) (h : SchedOk inSz sched) :
-    (∀ m ∈ (hdSlot sched).pre, unrelated inSz m = true) ∧ ((hdSlot sched).full = true → (hdSlot sched).pre ≠ []) := by
-  cases sched with
-  | nil => simp [hdSlot]
-  | cons sl sls => simpa [hdSlot] using h sl (by simp)
-
-theorem sdoRead_eq (p : Params) :
-    sdoRead p = (mbxSend (upReq p) >>= fun _ => recvCoe >>= fun data => readCont p data) := rfl
-
-/-- an upload that the first response settles, in the composed system -/
-theorem read_exchange (p : Params) (cnt : Nat) (sched : List Slot) (objs : List Obj) (hwf : Wf p)
-    (hs : SchedOk p.inSz sched) (resp data v : List UInt8) (srv1 : Srv)
-    (hsrv : step (init p.outSz p.inSz objs) (msgOf cnt (upReq p)) = (srv1, [resp]))
-    (hdec : decodeMail (padTo p.inSz resp) = .ok (mbx_COE, data))
-    (hcont : ∀ s, readCont p data s = (s, .ok v)) :
-    ∀ n, 1 ≤ n →
-      (system ⟨p, .read, cnt, sched, objs⟩ n).outcome = .ok v ∧
-      (system ⟨p, .read, cnt, sched, objs⟩ n).objs = srv1.objs ∧
-      (system ⟨p, .read, cnt, sched, objs⟩ n).responses = [[resp]] ∧
-      sent (system ⟨p, .read, cnt, sched, objs⟩ n).trace = [msgOf cnt (upReq p)] := by
-  obtain ⟨hpre, hfull⟩ := schedOk_head p.inSz sched hs
-  rw [← fulls_head] at hfull
+/-- **the master's side of a normal/segmented upload**: given the first `j` mails of the server it has written the
+first `j + 1` requests, and with all of them it returns the object -/
+theorem read_master (p : Params) (hwf : Wf p) (cnt : Nat) (sched : List Slot) (hs : SchedOk p.inSz sched)
+    (v : List UInt8) (hv : v.length < 256 ^ 4) (j : Nat) :
+    let rest := v.drop (p.inSz - 16)
+    let R := srvMail mbxCoE 1 (upNormBody p v) :: segMails p.inSz rest.length 2 0 rest
+    let Q := msgOf cnt (upReq p) :: segReqMsgs p (segMails p.inSz rest.length 2 0 rest).length (cntNext cnt) 0
+    sent (run p .read cnt (sched.map (·.full)) (mkMails p.inSz sched (singles (R.take j)))).1 = Q.take (j + 1) ∧
+    (R.length ≤ j → (run p .read cnt (sched.map (·.full)) (mkMails p.inSz sched (singles (R.take j)))).2 = .ok v) := by
+  intro rest R Q
   have hb : (upReq p).length < 65536 := by simp
-  apply single_exchange ⟨p, .read, cnt, sched, objs⟩ (msgOf cnt (upReq p)) resp srv1 (.ok v)
-  · simp; exact hwf.1
-  · obtain ⟨s', h1, h2⟩ := exchange_blocked p.inSz cnt (sched.map (·.full)) (hdSlot sched).pre (upReq p)
-      (fun data => readCont p data) hpre hfull hb
-    simp only [run, master, Setup.fulls, mkMails_nil, sdoRead_eq, h1, h2]
-  · exact hsrv
-  · obtain ⟨tr, h1, h2⟩ := exchange_ok p.inSz cnt (sched.map (·.full)) (hdSlot sched).pre (upReq p)
-      (fun data => readCont p data) (hdSlot sched).delay resp data (mkMails p.inSz sched.tail []) hpre hfull hb hdec
-    simp only [run, master, Setup.fulls, mkMails_one, sdoRead_eq, h2, hcont, h1]
-  · obtain ⟨tr, h1, h2⟩ := exchange_ok p.inSz cnt (sched.map (·.full)) (hdSlot sched).pre (upReq p)
-      (fun data => readCont p data) (hdSlot sched).delay resp data (mkMails p.inSz sched.tail []) hpre hfull hb hdec
-    simp only [run, master, Setup.fulls, mkMails_one, sdoRead_eq, h2, hcont]
+  have hrun : run p .read cnt (sched.map (·.full)) (mkMails p.inSz sched (singles (R.take j))) =
+      ((sdoRead p (envSt p.inSz cnt sched (R.take j) [])).1.tr, (sdoRead p (envSt p.inSz cnt sched (R.take j) [])).2) := rfl
+  rw [hrun, sdoRead_eq]
+  cases j with
+  | zero =>
+    obtain ⟨s', h1, h2⟩ := exch_blocked p.inSz cnt sched [] (upReq p) hs hb
+    simp only [List.take_zero, bind_err h1, h2]
+    simp [Q, sent]
+  | succ j =>
+    have hcoe : mbxCoE = mbx_COE := by decide
+    have hdec : decodeMail (padTo p.inSz (srvMail mbxCoE 1 (upNormBody p v))) = .ok (mbx_COE, upNormBody p v) := by
+      rw [← hcoe]
+      have hl : (upNormBody p v).length ≤ p.inSz - 6 := by
+        have := hwf.2.1
+        simp [upNormBody, sdoBody_length]; omega
+      have := hwf.2.1; have := hwf.2.2.1
+      exact decodeMail_srvMail _ _ _ _ (by omega) (by omega) (by decide) (by decide)
+    obtain ⟨tr', ht, hx⟩ := exch_ok p.inSz cnt sched [] (upReq p) _ _ ((segMails p.inSz rest.length 2 0 rest).take j) hs hb hdec
+    rw [show cnt % mbxMod + 1 = cntNext cnt from rfl] at hx
+    simp only [R, List.take_succ_cons, bind_ok hx, readCont_normal p hwf v hv, segStart]
+    have hfuel : ((segMails p.inSz rest.length 2 0 rest).take j).length <
+        (envSt p.inSz (cntNext cnt) sched.tail ((segMails p.inSz rest.length 2 0 rest).take j) tr').mails.length + 1 := by
+      have := length_le_mkMails p.inSz sched.tail ((segMails p.inSz rest.length 2 0 rest).take j)
+      simp only [envSt]; omega
+    obtain ⟨s', r1, r2⟩ := segLoop_run p hwf rest.length rest j _ v.length [v.take (p.inSz - 16)] (v.take (p.inSz - 16)).length
+      0 (cntNext cnt) 2 sched.tail tr' (Nat.le_refl _) (by decide) (schedOk_tail _ _ hs)
+      (by simp [rest]; omega) hfuel
+    simp only [Nat.mul_zero] at r1
+    rw [r1]
+    refine ⟨?_, ?_⟩
+    · simp only [r2, ht, Q, List.take_succ_cons, segReqMsgs_take]
+      simp [sent]
+    · intro hle
+      have : (segMails p.inSz rest.length 2 0 rest).length ≤ j := by simp at hle; omega
+      simp only [this, if_true]
+      simp [rest, List.take_append_drop]
 
-theorem sdoBody_length (svc cmd i sub : Nat) (rest : List UInt8) : (sdoBody svc cmd i sub rest).length = 6 + rest.length := by
-  simp [sdoBody]; omega
+theorem segReqMsgs_len16 (p : Params) (n cnt stog : Nat) : ∀ q ∈ segReqMsgs p n cnt stog, q.length = 16 := by
+  induction n generalizing cnt stog with
+  | zero => simp [segReqMsgs]
+  | succ n ih =>
+    intro q hq
+    simp only [segReqMsgs, List.mem_cons] at hq
+    rcases hq with rfl | hq
+    · simp [segUpReq_length]
+    · exact ih _ _ q hq
 
-/-- the run of an upload that one response settles: the object's bytes, one 16-byte request, one response that fits -/
-theorem read_run (p : Params) (cnt : Nat) (sched : List Slot) (objs : List Obj) (o : Obj) (hwf : Wf p)
-    (hs : SchedOk p.inSz sched) (hobj : Holds p objs o)
-    (hlen : (1 ≤ o.val.length ∧ o.val.length ≤ 4) ∨ o.val.length + 16 ≤ p.inSz) :
-    ∃ resp : List UInt8, resp.length ≤ p.inSz ∧ ∀ n, 1 ≤ n →
-      (system ⟨p, .read, cnt, sched, objs⟩ n).outcome = .ok o.val ∧
-      (system ⟨p, .read, cnt, sched, objs⟩ n).objs = objs ∧
-      (system ⟨p, .read, cnt, sched, objs⟩ n).responses = [[resp]] ∧
-      sent (system ⟨p, .read, cnt, sched, objs⟩ n).trace = [msgOf cnt (upReq p)] := by
+/-- what a run of the composed system looks like: outcome, the server's objects, its mails, the master's messages -/
+def RunIs (c : Setup) (o : Sdo.R (List UInt8)) (objs : List Obj) (R Q : List (List UInt8)) : Prop :=
+  ∀ n, R.length ≤ n → (system c n).outcome = o ∧ (system c n).objs = objs ∧
+    (system c n).responses = singles R ∧ sent (system c n).trace = Q
+
+/-- the server's answer to the initiate-upload request for an object that is not expedited, in normal form -/
+theorem step_upload_long (p : Params) (hwf : Wf p) (cnt : Nat) (objs : List Obj) (o : Obj) (hobj : Holds p objs o)
+    (hne : ¬ (1 ≤ o.val.length ∧ o.val.length ≤ 4)) :
+    step (init p.outSz p.inSz objs) (msgOf cnt (upReq p)) =
+      (⟨p.outSz, p.inSz, objs, 2, if o.val.drop (p.inSz - 16) = [] then .idle
+          else .up p.index (subOr1 p) p.sub.isNone (o.val.drop (p.inSz - 16)) 0⟩,
+       [srvMail mbxCoE 1 (upNormBody p o.val)]) := by
+  rw [step_upload (init p.outSz p.inSz objs) p hwf cnt o rfl hobj]
+  by_cases h : o.val.length > p.inSz - 16
+  · have : o.val.drop (p.inSz - 16) ≠ [] := by
+      intro h0; have := congrArg List.length h0; simp at this; omega
+    simp [uploadAnswer, hne, respond, mail_eq, init, h, this, upNormBody]
+  · have : o.val.drop (p.inSz - 16) = [] := List.drop_eq_nil_of_le (by omega)
+    simp [uploadAnswer, hne, respond, mail_eq, init, h, this, upNormBody]
+
+/-- **upload, normal or segmented** (0 or at least 5 bytes, any number of segments): the run of the composed system -/
+theorem read_long_run (p : Params) (cnt : Nat) (sched : List Slot) (objs : List Obj) (o : Obj) (hwf : Wf p)
+    (hs : SchedOk p.inSz sched) (hobj : Holds p objs o) (hne : ¬ (1 ≤ o.val.length ∧ o.val.length ≤ 4))
+    (hv : o.val.length < 256 ^ 4) :
+    RunIs ⟨p, .read, cnt, sched, objs⟩ (.ok o.val) objs
+      (srvMail mbxCoE 1 (upNormBody p o.val) ::
+        segMails p.inSz (o.val.drop (p.inSz - 16)).length 2 0 (o.val.drop (p.inSz - 16)))
+      (msgOf cnt (upReq p) :: segReqMsgs p
+        (segMails p.inSz (o.val.drop (p.inSz - 16)).length 2 0 (o.val.drop (p.inSz - 16))).length (cntNext cnt) 0) := by
+  have hup := step_upload_long p hwf cnt objs o hobj hne
+  obtain ⟨sN, h1, h2⟩ := serve_segs p hwf (o.val.drop (p.inSz - 16)).length (o.val.drop (p.inSz - 16))
+    ⟨p.outSz, p.inSz, objs, 2, if o.val.drop (p.inSz - 16) = [] then .idle
+      else .up p.index (subOr1 p) p.sub.isNone (o.val.drop (p.inSz - 16)) 0⟩
+    0 (cntNext cnt) p.index (subOr1 p) p.sub.isNone (Nat.le_refl _) (by decide) rfl rfl rfl
+  have hM := fun j => read_master p hwf cnt sched hs o.val hv j
+  have hres := conversation ⟨p, .read, cnt, sched, objs⟩
+    (msgOf cnt (upReq p) :: segReqMsgs p
+      (segMails p.inSz (o.val.drop (p.inSz - 16)).length 2 0 (o.val.drop (p.inSz - 16))).length (cntNext cnt) 0)
+    (srvMail mbxCoE 1 (upNormBody p o.val) ::
+      segMails p.inSz (o.val.drop (p.inSz - 16)).length 2 0 (o.val.drop (p.inSz - 16)))
+    sN (.ok o.val) (by simp [segReqMsgs_length]) ?_ ?_ (fun j _ => (hM j).1) ?_
+  · intro n hn
+    obtain ⟨a, b, c, d⟩ := hres n hn
+    exact ⟨a, by rw [b, h2], c, d⟩
+  · intro q hq
+    simp only [List.mem_cons] at hq
+    rcases hq with rfl | hq
+    · simp; exact hwf.1
+    · rw [segReqMsgs_len16 p _ _ _ q hq]; exact hwf.1
+  · simp only [Setup.srv, serveAll, hup, h1]
+    simp [singles]
+  · have := (hM (srvMail mbxCoE 1 (upNormBody p o.val) ::
+      segMails p.inSz (o.val.drop (p.inSz - 16)).length 2 0 (o.val.drop (p.inSz - 16))).length).2 (Nat.le_refl _)
+    rw [List.take_length] at this
+    exact this
+
+/-- the payload of the expedited initiate-upload response -/
+def upExpBody (p : Params) (v : List UInt8) : List UInt8 :=
+  sdoBody svcSdoRes (0x43 ||| ((4 - v.length) <<< 2) ||| caBit p.sub.isNone) p.index (subOr1 p) (v ++ zeros (4 - v.length))
+
+/-- **expedited upload** (1..4 bytes): the run of the composed system -/
+theorem read_exp_run (p : Params) (cnt : Nat) (sched : List Slot) (objs : List Obj) (o : Obj) (hwf : Wf p)
+    (hs : SchedOk p.inSz sched) (hobj : Holds p objs o) (h1 : 1 ≤ o.val.length) (h4 : o.val.length ≤ 4) :
+    RunIs ⟨p, .read, cnt, sched, objs⟩ (.ok o.val) objs [srvMail mbxCoE 1 (upExpBody p o.val)] [msgOf cnt (upReq p)] := by
   have hup := step_upload (init p.outSz p.inSz objs) p hwf cnt o rfl hobj
+  simp only [uploadAnswer, h1, h4, and_self, if_true, respond, mail_eq] at hup
+  have hb : (upReq p).length < 65536 := by simp
   have hcoe : mbxCoE = mbx_COE := by decide
-  obtain ⟨ho, hi, hi2, hidx, hsub⟩ := hwf
-  by_cases hexp : 1 ≤ o.val.length ∧ o.val.length ≤ 4
-  · simp only [uploadAnswer, hexp, and_self, if_true, respond, mail_eq] at hup
-    refine ⟨_, ?_, read_exchange p cnt sched objs ⟨ho, hi, hi2, hidx, hsub⟩ hs _
-      (sdoBody svcSdoRes (0x43 ||| (4 - o.val.length) <<< 2 ||| caBit p.sub.isNone) p.index (subOr1 p)
-        (o.val ++ zeros (4 - o.val.length))) o.val _ hup ?_ ?_⟩
-    · simp [sdoBody_length]; omega
-    · rw [← hcoe]
-      exact decodeMail_srvMail _ _ _ _ (by simp [sdoBody_length]; omega) (by simp [sdoBody_length]; omega)
-        (by decide) (by decide)
-    · intro s
-      exact readCont_expedited p ⟨ho, hi, hi2, hidx, hsub⟩ o.val hexp.1 hexp.2 _ s
-  · have hfit : o.val.length + 16 ≤ p.inSz := by
-      rcases hlen with h | h
-      · exact absurd h hexp
-      · exact h
-    have hnot : ¬ o.val.length > (init p.outSz p.inSz objs).inSz - 16 := by simp [init]; omega
-    have htake : o.val.take ((init p.outSz p.inSz objs).inSz - 16) = o.val :=
-      List.take_of_length_le (by simp [init]; omega)
-    simp only [uploadAnswer, hexp, if_false, hnot, htake, respond, mail_eq] at hup
-    refine ⟨_, ?_, read_exchange p cnt sched objs ⟨ho, hi, hi2, hidx, hsub⟩ hs _
-      (sdoBody svcSdoRes (0x41 ||| caBit p.sub.isNone) p.index (subOr1 p) (encLE 4 o.val.length ++ o.val)) o.val _ hup ?_ ?_⟩
-    · simp [sdoBody_length]; omega
-    · rw [← hcoe]
-      exact decodeMail_srvMail _ _ _ _ (by simp [sdoBody_length]; omega) (by simp [sdoBody_length]; omega)
-        (by decide) (by decide)
-    · intro s
-      exact readCont_normal p ⟨ho, hi, hi2, hidx, hsub⟩ o.val (by omega) _ s
+  have hdec : decodeMail (padTo p.inSz (srvMail mbxCoE 1 (upExpBody p o.val))) = .ok (mbx_COE, upExpBody p o.val) := by
+    rw [← hcoe]
+    have := hwf.2.1
+    exact decodeMail_srvMail _ _ _ _ (by simp [upExpBody, sdoBody_length]; omega) (by simp [upExpBody, sdoBody_length]; omega)
+      (by decide) (by decide)
+  have hrun : ∀ rs, run p .read cnt (sched.map (·.full)) (mkMails p.inSz sched (singles rs)) =
+      ((sdoRead p (envSt p.inSz cnt sched rs [])).1.tr, (sdoRead p (envSt p.inSz cnt sched rs [])).2) := fun _ => rfl
+  obtain ⟨s0, b1, b2⟩ := exch_blocked p.inSz cnt sched [] (upReq p) hs hb
+  obtain ⟨tr', t1, t2⟩ := exch_ok p.inSz cnt sched [] (upReq p) _ _ [] hs hb hdec
+  have hc : ∀ s, readCont p (upExpBody p o.val) s = (s, .ok o.val) := readCont_expedited p hwf o.val h1 h4 p.sub.isNone
+  have hres := conversation ⟨p, .read, cnt, sched, objs⟩ [msgOf cnt (upReq p)] [srvMail mbxCoE 1 (upExpBody p o.val)]
+    _ (.ok o.val) rfl (by intro q hq; simp at hq; subst hq; simp; exact hwf.1)
+    (by simp only [Setup.srv, serveAll, hup]; rfl) ?_ ?_
+  · intro n hn
+    obtain ⟨a, b, c, d⟩ := hres n hn
+    exact ⟨a, by rw [b]; rfl, c, d⟩
+  · intro j hj
+    have : j = 0 ∨ j = 1 := by simp at hj; omega
+    rcases this with rfl | rfl
+    · simp only [Setup.fulls, List.take_zero, hrun, sdoRead_eq, bind_err b1, b2]; simp [sent]
+    · simp only [Setup.fulls, List.take_succ_cons, List.take_zero, hrun, sdoRead_eq, bind_ok t2]
+      simp [hc, envSt, t1, sent]
+  · simp only [Setup.fulls, hrun, sdoRead_eq, bind_ok t2]
+    simp [hc]
 
-/-! ## the property, mode by mode -/
+/-! ## the property: uploads -/
 
 /-- **expedited upload**: an object of 1..4 bytes is returned byte for byte — every content, index, subindex or
 complete access, mailbox sizes, counter, and every schedule of delays, unrelated mail and drains -/
 theorem read_expedited_exact (p : Params) (cnt : Nat) (sched : List Slot) (objs : List Obj) (o : Obj) (hwf : Wf p)
     (hs : SchedOk p.inSz sched) (hobj : Holds p objs o) (h1 : 1 ≤ o.val.length) (h4 : o.val.length ≤ 4) :
-    ∀ n, 1 ≤ n → (system ⟨p, .read, cnt, sched, objs⟩ n).outcome = .ok o.val := by
-  obtain ⟨resp, _, h⟩ := read_run p cnt sched objs o hwf hs hobj (Or.inl ⟨h1, h4⟩)
-  exact fun n hn => (h n hn).1
+    Eventually ⟨p, .read, cnt, sched, objs⟩ (fun r => r.outcome = .ok o.val) :=
+  ⟨_, fun n hn => (read_exp_run p cnt sched objs o hwf hs hobj h1 h4 n hn).1⟩
 
 /-- **normal upload in one frame**: an object of 0 or 5..`inSz − 16` bytes is returned byte for byte -/
 theorem read_normal_exact (p : Params) (cnt : Nat) (sched : List Slot) (objs : List Obj) (o : Obj) (hwf : Wf p)
-    (hs : SchedOk p.inSz sched) (hobj : Holds p objs o) (hfit : o.val.length + 16 ≤ p.inSz) :
-    ∀ n, 1 ≤ n → (system ⟨p, .read, cnt, sched, objs⟩ n).outcome = .ok o.val := by
-  obtain ⟨resp, _, h⟩ := read_run p cnt sched objs o hwf hs hobj (Or.inr hfit)
-  exact fun n hn => (h n hn).1
+    (hs : SchedOk p.inSz sched) (hobj : Holds p objs o) (hne : ¬ (1 ≤ o.val.length ∧ o.val.length ≤ 4))
+    (hfit : o.val.length + 16 ≤ p.inSz) :
+    Eventually ⟨p, .read, cnt, sched, objs⟩ (fun r => r.outcome = .ok o.val) :=
+  ⟨_, fun n hn => (read_long_run p cnt sched objs o hwf hs hobj hne (by have := hwf.2.2.1; omega) n hn).1⟩
 
-/-! ### expedited download -/
+/-- **segmented upload**: an object longer than the first response can carry — any number of segments, a short last
+one included — is returned byte for byte, under every schedule (unrelated mail between the segments too) -/
+theorem read_segmented_exact (p : Params) (cnt : Nat) (sched : List Slot) (objs : List Obj) (o : Obj) (hwf : Wf p)
+    (hs : SchedOk p.inSz sched) (hobj : Holds p objs o) (_hlong : p.inSz < o.val.length + 16)
+    (hv : o.val.length < 256 ^ 4) :
+    Eventually ⟨p, .read, cnt, sched, objs⟩ (fun r => r.outcome = .ok o.val) := by
+  by_cases hexp : 1 ≤ o.val.length ∧ o.val.length ≤ 4      -- only with a 16-byte mailbox: the server answers expedited
+  · exact ⟨_, fun n hn => (read_exp_run p cnt sched objs o hwf hs hobj hexp.1 hexp.2 n hn).1⟩
+  · exact ⟨_, fun n hn => (read_long_run p cnt sched objs o hwf hs hobj hexp hv n hn).1⟩
 
-/-- what `sdo_write` does with the mail it receives after an expedited request -/
-def expCont (p : Params) (td : Nat × List UInt8) : M (List UInt8) :=
-  if td.1 ≠ mbx_COE then fail .nameError
-  else if td.2.length < 6 then fail .structError
-  else if u16 td.2 3 ≠ p.index ∨ p.sub ≠ some (byte td.2 5) then fail .ethercat
-  else if u16 td.2 0 >>> 12 ≠ coe_SDORES then fail .ethercat
-  else pure []
+/-! ### download segments: what the master sends, what the server makes of it and answers -/
 
-theorem sdoWrite_exp_eq (p : Params) (v : List UInt8) (h : v.length ≤ 4 ∧ p.sub.isSome = true) :
-    sdoWrite p v = (mbxSend (expReq p v) >>= fun _ => mbxRecv >>= expCont p) := by
-  unfold sdoWrite
-  simp only [h, and_self, if_true]
-  rfl
+/-- the confirmation of a download segment: scs 1 with the toggle of the request -/
+def confBody (stog : Nat) : List UInt8 := encLE 2 (svcSdoRes <<< 12) ++ [UInt8.ofNat (0x20 ||| stog <<< 4)] ++ zeros 7
 
-theorem mbxRecv_nil (s : St) (h : s.mails = []) : mbxRecv s = (s, .err .blocked) := by
-  simp [mbxRecv, h]
+theorem downCmd_bits : ∀ stog < 2, ∀ l < 2, ∀ k < 8,
+    ((16 * stog ||| l) ||| k <<< 1) < 256 ∧ ((16 * stog ||| l) ||| k <<< 1) >>> 5 = 0 ∧
+    (((16 * stog ||| l) ||| k <<< 1) >>> 4) &&& 1 = stog ∧ (((16 * stog ||| l) ||| k <<< 1) >>> 1) &&& 7 = k ∧
+    (((16 * stog ||| l) ||| k <<< 1) &&& 1 != 0) = (l != 0) := by decide
 
-theorem mbxRecv_cons (s : St) (m : Mail) (ms : List Mail) (h : s.mails = m :: ms) :
-    mbxRecv s = ({ s with mails := ms, tr := s.tr ++ polls m.delay }, decodeMail m.raw) := by
-  simp [mbxRecv, h]
+theorem segDownCmd_eq (stog : Nat) (last : Bool) (n : Nat) :
+    segDownCmd (16 * stog) last n = (16 * stog ||| (if last then 1 else 0)) ||| (if n < 7 then 7 - n else 0) <<< 1 := by
+  unfold segDownCmd; cases last <;> by_cases h : n < 7 <;> simp [h]
 
-theorem delaysOnly_head (sched : List Slot) (h : DelaysOnly sched) :
-    (hdSlot sched).pre = [] ∧ (hdSlot sched).full = false ∧ DelaysOnly sched.tail := by
-  cases sched with
-  | nil => simp [hdSlot, DelaysOnly]
-  | cons sl sls =>
-    refine ⟨(h sl (by simp)).1, (h sl (by simp)).2, fun x hx => h x (by simp at hx ⊢; exact Or.inr hx)⟩
+theorem segDownReq_length (t : Nat) (last : Bool) (d : List UInt8) : (segDownReq t last d).length = 3 + d.length + (7 - d.length) := by
+  simp [segDownReq]; omega
 
-@[simp] theorem expReq_length (p : Params) (v : List UInt8) (h : v.length ≤ 4) : (expReq p v).length = 10 := by
-  simp [expReq, sdoHdr_length]; omega
+/-- what the master checks in a segment confirmation -/
+theorem conf_check (stog : Nat) (hs : stog < 2) :
+    ¬ (confBody stog).length < 3 ∧
+      ¬ (u16 (confBody stog) 0 >>> 12 ≠ coe_SDORES ∨ byte (confBody stog) 2 ≠ (0x20 ||| 16 * stog)) := by
+  have : stog = 0 ∨ stog = 1 := by omega
+  rcases this with rfl | rfl <;> decide
 
-/-- request written with nothing pending, no answer: the call waits, having sent exactly the request -/
-theorem wexchange_blocked {α : Type} (cnt : Nat) (fulls : List Bool) (body : List UInt8) (k : Nat × List UInt8 → M α)
-    (hf : fulls.headD false = false) (hb : body.length < 65536) :
-    ∃ s', (mbxSend body >>= fun _ => mbxRecv >>= k) ⟨cnt, fulls, [], []⟩ = (s', .err .blocked) ∧
-      sent s'.tr = [msgOf cnt body] := by
-  rw [bind_ok (mbxSend_nofull body ⟨cnt, fulls, [], []⟩ hb hf)]
-  exact ⟨_, bind_err (mbxRecv_nil _ rfl), by simp [sent]⟩
-
-/-- request written with nothing pending, the next mail is `raw`: the call goes on with what it decodes to -/
-theorem wexchange_ok {α : Type} (cnt : Nat) (fulls : List Bool) (body : List UInt8) (k : Nat × List UInt8 → M α)
-    (d : Nat) (raw : List UInt8) (rest : List Mail) (td : Nat × List UInt8)
-    (hf : fulls.headD false = false) (hb : body.length < 65536) (hdec : decodeMail raw = .ok td) :
-    ∃ tr, sent tr = [msgOf cnt body] ∧
-      (mbxSend body >>= fun _ => mbxRecv >>= k) ⟨cnt, fulls, ⟨d, raw⟩ :: rest, []⟩ =
-        k td ⟨cnt % mbxMod + 1, fulls.tail, rest, tr⟩ := by
-  rw [bind_ok (mbxSend_nofull body ⟨cnt, fulls, ⟨d, raw⟩ :: rest, []⟩ hb hf)]
-  refine ⟨[] ++ [.st0 false, .send (msgOf cnt body), .kick] ++ polls d, by simp [sent], ?_⟩
-  exact bind_ok (by rw [mbxRecv_cons _ _ _ rfl]; simp [hdec])
-
-/-- a download that one exchange settles, in the composed system, whatever the server makes of the request -/
-theorem w_exchange (p : Params) (cnt : Nat) (sched : List Slot) (objs : List Obj) (v body : List UInt8)
-    (k : Nat × List UInt8 → M (List UInt8)) (hs : DelaysOnly sched)
-    (hm : sdoWrite p v = (mbxSend body >>= fun _ => mbxRecv >>= k))
-    (hb : body.length < 65536) (hfit : 6 + body.length ≤ p.outSz)
-    (resp : List UInt8) (td : Nat × List UInt8) (srv1 : Srv) (o : R (List UInt8))
-    (hsrv : step (init p.outSz p.inSz objs) (msgOf cnt body) = (srv1, [resp]))
-    (hdec : decodeMail (padTo p.inSz resp) = .ok td)
-    (hcont : ∀ s, k td s = (s, o)) :
-    ∀ n, 1 ≤ n →
-      (system ⟨p, .write v, cnt, sched, objs⟩ n).outcome = o ∧
-      (system ⟨p, .write v, cnt, sched, objs⟩ n).objs = srv1.objs ∧
-      (system ⟨p, .write v, cnt, sched, objs⟩ n).responses = [[resp]] ∧
-      sent (system ⟨p, .write v, cnt, sched, objs⟩ n).trace = [msgOf cnt body] := by
-  obtain ⟨hpre, hfull, htail⟩ := delaysOnly_head sched hs
-  rw [← fulls_head] at hfull
-  apply single_exchange ⟨p, .write v, cnt, sched, objs⟩ (msgOf cnt body) resp srv1 o
-  · simp; exact hfit
-  · obtain ⟨s', h1, h2⟩ := wexchange_blocked cnt (sched.map (·.full)) body k hfull hb
-    simp only [run, master, Setup.fulls, mkMails_nil, hpre, List.map_nil, hm, h1, h2]
-  · exact hsrv
-  · obtain ⟨tr, h1, h2⟩ := wexchange_ok cnt (sched.map (·.full)) body k (hdSlot sched).delay
-      (padTo p.inSz resp) (mkMails p.inSz sched.tail []) td hfull hb hdec
-    simp only [run, master, Setup.fulls, mkMails_one, hpre, List.map_nil, List.nil_append, toMail, hm, h2, hcont, h1]
-  · obtain ⟨tr, h1, h2⟩ := wexchange_ok cnt (sched.map (·.full)) body k (hdSlot sched).delay
-      (padTo p.inSz resp) (mkMails p.inSz sched.tail []) td hfull hb hdec
-    simp only [run, master, Setup.fulls, mkMails_one, hpre, List.map_nil, List.nil_append, toMail, hm, h2, hcont]
-
-/-- an expedited download in the composed system, whatever the server makes of the request -/
-theorem exp_exchange (p : Params) (cnt : Nat) (sched : List Slot) (objs : List Obj) (v : List UInt8) (hwf : Wf p)
-    (hs : DelaysOnly sched) (hv : v.length ≤ 4) (hsub : p.sub.isSome = true)
-    (resp : List UInt8) (td : Nat × List UInt8) (srv1 : Srv) (o : R (List UInt8))
-    (hsrv : step (init p.outSz p.inSz objs) (msgOf cnt (expReq p v)) = (srv1, [resp]))
-    (hdec : decodeMail (padTo p.inSz resp) = .ok td)
-    (hcont : ∀ s, expCont p td s = (s, o)) :
-    ∀ n, 1 ≤ n →
-      (system ⟨p, .write v, cnt, sched, objs⟩ n).outcome = o ∧
-      (system ⟨p, .write v, cnt, sched, objs⟩ n).objs = srv1.objs ∧
-      (system ⟨p, .write v, cnt, sched, objs⟩ n).responses = [[resp]] ∧
-      sent (system ⟨p, .write v, cnt, sched, objs⟩ n).trace = [msgOf cnt (expReq p v)] :=
-  w_exchange p cnt sched objs v (expReq p v) (expCont p) hs (sdoWrite_exp_eq p v ⟨hv, hsub⟩) (by simp [hv])
-    (by simp [hv]; exact hwf.1) resp td srv1 o hsrv hdec hcont
-
-/-- the command byte of the expedited download request -/
-def expCmd (n : Nat) : Nat := od_DOWN_EXP ||| (((4 - n) <<< 2) &&& 0xc)
-
-theorem expReq_eq (p : Params) (v : List UInt8) :
-    expReq p v = sdoHdr (coe_SDOREQ <<< 12) (expCmd v.length) p.index (subOr1 p) ++ (v ++ zeros (4 - v.length)) := rfl
-
-theorem expCmd_facts (n : Nat) (h1 : 1 ≤ n) (h4 : n ≤ 4) :
-    expCmd n < 256 ∧ expCmd n >>> 5 = 1 ∧ (expCmd n &&& 0x10 != 0) = false ∧ (expCmd n &&& 2 != 0) = true ∧
-      (expCmd n &&& 1 != 0) = true ∧ 4 - ((expCmd n >>> 2) &&& 3) = n := by
-  have : n = 1 ∨ n = 2 ∨ n = 3 ∨ n = 4 := by omega
-  rcases this with rfl | rfl | rfl | rfl <;> decide
-
-theorem find_store (objs : List Obj) (i s : Nat) (ca : Bool) (o : Obj) (v : List UInt8)
-    (h : find objs i s ca = some o) : find (store objs i s ca v) i s ca = some { o with val := v } := by
-  induction objs with
-  | nil => simp [find] at h
-  | cons x xs ih =>
-    simp only [find, store, List.map_cons, List.find?_cons] at h ⊢
-    by_cases hx : (x.index == i && x.sub == s && x.ca == ca) = true
-    · simp only [hx, if_true] at h ⊢
-      have : x = o := by simpa using h
-      subst this
-      simp
-    · simp only [hx] at h ⊢
-      simp only [Bool.false_eq_true, if_false, hx]
-      exact ih h
-
-/-- a conformant server stores the 1..4 data bytes of an expedited download and confirms -/
-theorem step_download_exp (s : Srv) (p : Params) (hwf : Wf p) (cnt : Nat) (o : Obj) (v : List UInt8)
-    (hsz : s.outSz = p.outSz)
-    (hfind : find s.objs p.index (subOr1 p) false = some o) (h1 : 1 ≤ v.length) (h4 : v.length ≤ 4)
-    (hcap : v.length ≤ o.cap) :
-    step s (msgOf cnt (expReq p v)) =
-      respond { s with xfer := .idle, objs := store s.objs p.index (subOr1 p) false v } 0x60 p.index (subOr1 p) (zeros 4) := by
-  obtain ⟨ho, hi, hi2, hidx, hsb⟩ := hwf
-  obtain ⟨c1, c2, c3, c4, c5, c6⟩ := expCmd_facts v.length h1 h4
-  have hsvc : u16 (expReq p v) 0 >>> 12 = 2 := by
-    rw [expReq_eq, u16_sdoHdr0 _ _ _ _ _ (by decide)]; decide
-  rw [step_sdo s cnt (expReq p v) (by simp [h4]) (by simp [h4]; omega) (by simp [h4]) hsvc]
-  have hcmd : byte (expReq p v) 2 = expCmd v.length := by rw [expReq_eq, byte_sdoHdr2 _ _ _ _ _ c1]
-  rw [hcmd, c2]
-  simp only [initDownload, rd16_eq_u16, rd8_eq_byte, c3, c4, c5, c6, if_true]
-  rw [expReq_eq, u16_sdoHdr3 _ _ _ _ _ hidx, byte_sdoHdr5 _ _ _ _ _ hsb, drop6_sdoHdr]
-  have hn : ¬ v.length > o.cap := by omega
-  simp [hfind, hn, caBit]
-
-/-- the master accepts the server's confirmation of a download with subindex -/
-theorem expCont_confirm (p : Params) (hwf : Wf p) (hsub : p.sub.isSome = true) (s : St) :
-    expCont p (mbx_COE, sdoBody svcSdoRes 0x60 p.index (subOr1 p) (zeros 4)) s = (s, .ok []) := by
-  obtain ⟨ho, hi, hi2, hidx, hsb⟩ := hwf
-  obtain ⟨r1, r2⟩ := coeRes_facts
-  obtain ⟨sb, hsb'⟩ := Option.isSome_iff_exists.mp hsub
-  have hs1 : subOr1 p = sb := by simp [subOr1, hsb']
-  rw [sdoBody_eq]
-  have hlen : ¬ (sdoHdr (svcSdoRes <<< 12) 0x60 p.index (subOr1 p) ++ zeros 4).length < 6 := by simp [sdoHdr_length]
-  unfold expCont
-  simp only [hlen, if_false, u16_sdoHdr0 _ _ _ _ _ r1, byte_sdoHdr5 _ _ _ _ _ hsb, u16_sdoHdr3 _ _ _ _ _ hidx, r2]
-  simp [hsb', hs1, M.pure, pure]
-
-/-- **expedited download**: 1..4 bytes written with a subindex end up in the object byte for byte and the call
-returns — every content, index, subindex, mailbox sizes, counter, and every delay of the confirmation -/
-theorem write_expedited_exact (p : Params) (cnt : Nat) (sched : List Slot) (objs : List Obj) (o : Obj) (v : List UInt8)
-    (hwf : Wf p) (hs : DelaysOnly sched) (hsub : p.sub.isSome = true) (hobj : Holds p objs o)
-    (h1 : 1 ≤ v.length) (h4 : v.length ≤ 4) (hcap : v.length ≤ o.cap) :
-    ∀ n, 1 ≤ n →
-      (system ⟨p, .write v, cnt, sched, objs⟩ n).outcome = .ok [] ∧
-      target ⟨p, .write v, cnt, sched, objs⟩ (system ⟨p, .write v, cnt, sched, objs⟩ n).objs = some v := by
-  have hca : p.sub.isNone = false := by cases h : p.sub <;> simp [h] at hsub ⊢
-  have hobj' : find (init p.outSz p.inSz objs).objs p.index (subOr1 p) false = some o := by
-    simpa [Holds, hca, init] using hobj
-  have hsrv := step_download_exp (init p.outSz p.inSz objs) p hwf cnt o v rfl hobj' h1 h4 hcap
-  simp only [respond, mail_eq] at hsrv
+theorem conf_decode (inSz scnt stog : Nat) (h16 : 16 ≤ inSz) :
+    decodeMail (padTo inSz (srvMail mbxCoE scnt (confBody stog))) = .ok (mbx_COE, confBody stog) := by
   have hcoe : mbxCoE = mbx_COE := by decide
-  have hdec : decodeMail (padTo p.inSz (srvMail mbxCoE (init p.outSz p.inSz objs).cnt
-      (sdoBody svcSdoRes 0x60 p.index (subOr1 p) (zeros 4)))) =
-      .ok (mbx_COE, sdoBody svcSdoRes 0x60 p.index (subOr1 p) (zeros 4)) := by
-    rw [← hcoe]
-    exact decodeMail_srvMail _ _ _ _ (by simp [sdoBody_length]; exact hwf.2.1) (by simp [sdoBody_length]) (by decide) (by decide)
-  intro n hn
-  obtain ⟨e1, e2, _, _⟩ := exp_exchange p cnt sched objs v hwf hs h4 hsub _ _ _ (.ok []) hsrv hdec
-    (expCont_confirm p hwf hsub) n hn
-  refine ⟨e1, ?_⟩
-  rw [e2]
-  simp only [target, hca]
-  rw [find_store _ _ _ _ o v hobj']
+  rw [← hcoe]
+  exact decodeMail_srvMail _ _ _ _ (by simp [confBody]; omega) (by simp [confBody]) (by decide) (by decide)
+
+/-- the download segment requests from `stop` on (`m` bounds their number) and the server's confirmations -/
+def downMsgs (p : Params) (v : List UInt8) : Nat → Nat → Nat → Nat → List (List UInt8)
+  | 0, _, _, _ => []
+  | m + 1, stop, cnt, stog =>
+    if stop < v.length then
+      msgOf cnt (segDownReq (16 * stog) (min v.length (stop + p.outSz - 9) = v.length) (slice v stop (min v.length (stop + p.outSz - 9)))) ::
+        downMsgs p v m (min v.length (stop + p.outSz - 9)) (cntNext cnt) (stog ^^^ 1)
+    else []
+
+def confMails (p : Params) (v : List UInt8) : Nat → Nat → Nat → Nat → List (List UInt8)
+  | 0, _, _, _ => []
+  | m + 1, stop, scnt, stog =>
+    if stop < v.length then
+      srvMail mbxCoE scnt (confBody stog) :: confMails p v m (min v.length (stop + p.outSz - 9)) (scnt % 7 + 1) (stog ^^^ 1)
+    else []
+
+theorem downMsgs_length (p : Params) (v : List UInt8) (m stop cnt scnt stog : Nat) :
+    (downMsgs p v m stop cnt stog).length = (confMails p v m stop scnt stog).length := by
+  induction m generalizing stop cnt scnt stog with
+  | zero => rfl
+  | succ m ih => simp only [downMsgs, confMails]; split <;> simp [ih _ _ (scnt % 7 + 1)]
+
+theorem slice_length_le (v : List UInt8) (a b : Nat) : (slice v a b).length ≤ b - a := by
+  simp [slice]; omega
+
+/-- **the download segment loop against the server's confirmations**: with the first `j` confirmations it writes the
+next `j + 1` segments and waits, or — having them all — returns -/
+theorem downLoop_run (p : Params) (hwf : Wf p) (v : List UInt8) : ∀ (m stop j fuel stog cnt scnt : Nat)
+    (sched : List Slot) (tr : List Ev),
+    v.length - stop ≤ m → stog < 2 → SchedOk p.inSz sched →
+    ((confMails p v m stop scnt stog).take j).length < fuel →
+    ∃ s', downLoop p v fuel stop (16 * stog) (envSt p.inSz cnt sched ((confMails p v m stop scnt stog).take j) tr) =
+          (s', if (confMails p v m stop scnt stog).length ≤ j then .ok [] else .err .blocked) ∧
+      sent s'.tr = sent tr ++ (downMsgs p v m stop cnt stog).take (j + 1) := by
+  obtain ⟨ho, hi, hi2, hidx, hsub, ho2⟩ := hwf
+  intro m
+  induction m with
+  | zero =>
+    intro stop j fuel stog cnt scnt sched tr hm _ _ hf
+    obtain ⟨f, rfl⟩ : ∃ f, fuel = f + 1 := ⟨fuel - 1, by omega⟩
+    have : ¬ stop < v.length := by omega
+    exact ⟨envSt p.inSz cnt sched [] tr, by simp [confMails, downLoop, this, pure, M.pure], by simp [downMsgs, envSt]⟩
+  | succ m ih =>
+    intro stop j fuel stog cnt scnt sched tr hm hst hs hf
+    obtain ⟨f, rfl⟩ : ∃ f, fuel = f + 1 := ⟨fuel - 1, by omega⟩
+    by_cases hlt : stop < v.length
+    · simp only [confMails, downMsgs, hlt, if_true] at hf ⊢
+      unfold downLoop
+      simp only [hlt, if_true]
+      have hb : (segDownReq (16 * stog) (min v.length (stop + p.outSz - 9) = v.length)
+          (slice v stop (min v.length (stop + p.outSz - 9)))).length < 65536 := by
+        have := slice_length_le v stop (min v.length (stop + p.outSz - 9))
+        rw [segDownReq_length]; omega
+      cases j with
+      | zero =>
+        obtain ⟨s', h1, h2⟩ := exch_blocked p.inSz cnt sched tr _ hs hb
+        exact ⟨s', by simp only [List.take_zero, bind_err h1]; simp, by rw [h2]; simp⟩
+      | succ j =>
+        obtain ⟨tr', ht, hx⟩ := exch_ok p.inSz cnt sched tr _ _ _
+          ((confMails p v m (min v.length (stop + p.outSz - 9)) (scnt % 7 + 1) (stog ^^^ 1)).take j) hs hb
+          (conf_decode p.inSz scnt stog hi)
+        simp only [List.take_succ_cons] at hf ⊢
+        rw [bind_ok hx]
+        obtain ⟨c1, c2⟩ := conf_check stog hst
+        obtain ⟨x1, x2⟩ := tog_xor stog hst
+        simp only [c1, c2, if_false, x1]
+        obtain ⟨s', r1, r2⟩ := ih (min v.length (stop + p.outSz - 9)) j f (stog ^^^ 1) (cntNext cnt) (scnt % 7 + 1)
+          sched.tail tr' (by omega) x2 (schedOk_tail _ _ hs) (by simp at hf ⊢; omega)
+        refine ⟨s', ?_, ?_⟩
+        · rw [show cnt % mbxMod + 1 = cntNext cnt from rfl, r1]; simp [Nat.succ_le_succ_iff]
+        · rw [r2, ht]; simp
+    · exact ⟨envSt p.inSz cnt sched [] tr, by simp [confMails, downLoop, hlt, pure, M.pure], by simp [downMsgs, hlt, envSt]⟩
+
+/-- the server finds the data of a segment behind the 3-byte header, without the padding -/
+theorem pad_extract (a b c : UInt8) (d : List UInt8) :
+    (if (a :: b :: c :: (d ++ zeros (7 - d.length))).length = 10
+      then ((a :: b :: c :: (d ++ zeros (7 - d.length))).drop 3).take (7 - padN d.length)
+      else (a :: b :: c :: (d ++ zeros (7 - d.length))).drop 3) = d := by
+  by_cases h7 : d.length < 7
+  · have hp : padN d.length = 7 - d.length := by simp [padN, h7]
+    have h10 : (a :: b :: c :: (d ++ zeros (7 - d.length))).length = 10 := by simp; omega
+    have : 7 - (7 - d.length) = d.length := by omega
+    simp only [h10, if_true, hp, this]
+    simp
+  · have hp : padN d.length = 0 := by simp [padN, h7]
+    have hz : 7 - d.length = 0 := by omega
+    simp only [hp, hz, zeros, List.replicate_zero, List.append_nil, Nat.sub_zero]
+    split
+    · rename_i h10
+      have : d.length = 7 := by simp at h10; omega
+      simp [List.take_of_length_le (Nat.le_of_eq this)]
+    · simp
+
+theorem segDownReq_cons (t : Nat) (last : Bool) (d : List UInt8) :
+    segDownReq t last d = UInt8.ofNat (coe_SDOREQ <<< 12 % 256) :: UInt8.ofNat (coe_SDOREQ <<< 12 / 256 % 256) ::
+      UInt8.ofNat (segDownCmd t last d.length) :: (d ++ zeros (7 - d.length)) := by
+  simp only [segDownReq, encLE, List.cons_append, List.nil_append]
+
+/-- a conformant server appends the data of a download segment and confirms with the same toggle; the last
+segment must complete the announced size and stores the value -/
+theorem step_downseg (s : Srv) (p : Params) (hwf : Wf p) (c stog i sub size : Nat) (ca : Bool) (buf d : List UInt8)
+    (last : Bool) (hsz : s.outSz = p.outSz) (hst : stog < 2) (hx : s.xfer = .down i sub ca size buf stog)
+    (hd : d.length ≤ p.outSz - 9) (hle : buf.length + d.length ≤ size) (hl : last = true ↔ buf.length + d.length = size) :
+    step s (msgOf c (segDownReq (16 * stog) last d)) =
+      mail (if last then { s with objs := store s.objs i sub ca (buf ++ d), xfer := .idle }
+            else { s with xfer := .down i sub ca size (buf ++ d) (stog ^^^ 1) }) mbxCoE (confBody stog) := by
+  obtain ⟨ho, hi, hi2, hidx, hsub, ho2⟩ := hwf
+  have hk : padN d.length < 8 := by unfold padN; split <;> omega
+  have hl2 : (if last then 1 else 0 : Nat) < 2 := by split <;> omega
+  obtain ⟨b1, b2, b3, b4, b5⟩ := downCmd_bits stog hst (if last then 1 else 0) hl2 (padN d.length) hk
+  have hcmdeq : segDownCmd (16 * stog) last d.length = (16 * stog ||| (if last then 1 else 0)) ||| padN d.length <<< 1 :=
+    segDownCmd_eq stog last d.length
+  have hlen := segDownReq_length (16 * stog) last d
+  have hsvc : u16 (segDownReq (16 * stog) last d) 0 >>> 12 = 2 := by
+    have : u16 (segDownReq (16 * stog) last d) 0 = coe_SDOREQ <<< 12 := by
+      simp [u16, slice, segDownReq, encLE, decLE]; decide
+    rw [this]; decide
+  have hcmd : byte (segDownReq (16 * stog) last d) 2 = (16 * stog ||| (if last then 1 else 0)) ||| padN d.length <<< 1 := by
+    have : byte (segDownReq (16 * stog) last d) 2 = segDownCmd (16 * stog) last d.length % 256 := by
+      rw [segDownReq_cons]; exact UInt8.toNat_ofNat'
+    rw [this, hcmdeq]; omega
+  rw [step_sdo s c _ (by omega) (by omega) (by omega) hsvc, hcmd, b2]
+  have hseg := pad_extract (UInt8.ofNat (coe_SDOREQ <<< 12 % 256)) (UInt8.ofNat (coe_SDOREQ <<< 12 / 256 % 256))
+    (UInt8.ofNat (segDownCmd (16 * stog) last d.length)) d
+  rw [← segDownReq_cons] at hseg
+  have hnle : ¬ (buf ++ d).length > size := by simp; omega
+  simp only [downloadSegment, hx, b3, b4, b5, ne_eq, not_true_eq_false, if_false, hseg, hnle]
+  cases last with
+  | true =>
+    have : (buf ++ d).length = size := by simp; exact hl.mp rfl
+    simp [this, confBody]
+  | false =>
+    simp [confBody]
+
+theorem take_append_slice (v : List UInt8) (a b : Nat) (h : a ≤ b) : v.take a ++ slice v a b = v.take b := by
+  obtain ⟨k, rfl⟩ : ∃ k, b = a + k := ⟨b - a, by omega⟩
+  simp [slice, List.take_add]
+
+/-- the server takes the download segments one by one, confirms each, and ends up holding the whole value -/
+theorem serve_down (p : Params) (hwf : Wf p) (v : List UInt8) : ∀ (m stop : Nat) (s : Srv) (stog cnt i sub : Nat) (ca : Bool),
+    v.length - stop ≤ m → stop ≤ v.length → stog < 2 → s.outSz = p.outSz →
+    (stop < v.length → s.xfer = .down i sub ca v.length (v.take stop) stog) →
+    ∃ sN, serveAll s (downMsgs p v m stop cnt stog) = (sN, singles (confMails p v m stop s.cnt stog)) ∧
+      sN.objs = (if stop < v.length then store s.objs i sub ca v else s.objs) := by
+  intro m
+  induction m with
+  | zero =>
+    intro stop s stog cnt i sub ca hm _ _ _ _
+    have : ¬ stop < v.length := by omega
+    exact ⟨s, by simp [downMsgs, confMails, serveAll, singles], by simp [this]⟩
+  | succ m ih =>
+    intro stop s stog cnt i sub ca hm hle hst ho hx
+    by_cases hlt : stop < v.length
+    · have hout := hwf.1
+      have hs' : stop < min v.length (stop + p.outSz - 9) := by omega
+      have hsl : (slice v stop (min v.length (stop + p.outSz - 9))).length = min v.length (stop + p.outSz - 9) - stop :=
+        length_slice v _ _ (by omega)
+      have htk : (v.take stop).length = stop := by simp; omega
+      have hstep := step_downseg s p hwf cnt stog i sub v.length ca (v.take stop)
+        (slice v stop (min v.length (stop + p.outSz - 9))) (decide (min v.length (stop + p.outSz - 9) = v.length)) ho hst
+        (hx hlt) (by omega) (by omega) (by simp; omega)
+      rw [take_append_slice v _ _ (by omega), mail_eq] at hstep
+      simp only [downMsgs, confMails, hlt, if_true, serveAll, hstep]
+      by_cases hlast : min v.length (stop + p.outSz - 9) = v.length
+      · have hnl : ¬ min v.length (stop + p.outSz - 9) < v.length := by omega
+        obtain ⟨sN, h1, h2⟩ := ih (min v.length (stop + p.outSz - 9))
+          ⟨s.outSz, s.inSz, store s.objs i sub ca (v.take (min v.length (stop + p.outSz - 9))), s.cnt % 7 + 1, .idle⟩
+          (stog ^^^ 1) (cntNext cnt) i sub ca (by omega) (by omega) (tog_xor stog hst).2 ho (fun h => absurd h hnl)
+        simp only [hlast, decide_true, if_true] at h1 h2 ⊢
+        refine ⟨sN, by rw [h1]; simp [singles], ?_⟩
+        simp only [Nat.lt_irrefl, if_false] at h2
+        rw [h2]; simp
+      · have hl' : min v.length (stop + p.outSz - 9) < v.length := by omega
+        obtain ⟨sN, h1, h2⟩ := ih (min v.length (stop + p.outSz - 9))
+          ⟨s.outSz, s.inSz, s.objs, s.cnt % 7 + 1,
+            .down i sub ca v.length (v.take (min v.length (stop + p.outSz - 9))) (stog ^^^ 1)⟩
+          (stog ^^^ 1) (cntNext cnt) i sub ca (by omega) (by omega) (tog_xor stog hst).2 ho (fun _ => rfl)
+        simp only [hlast, decide_false, Bool.false_eq_true, if_false] at h1 h2 ⊢
+        refine ⟨sN, by rw [h1]; simp [singles], ?_⟩
+        simp only [hl', if_true] at h2
+        exact h2
+    · exact ⟨s, by simp [downMsgs, confMails, hlt, serveAll, singles], by simp [hlt]⟩
+
+/-! ### downloads of every length -/
+
+/-- the first request of `sdo_write` and how much of the value it carries -/
+def firstReq (p : Params) (v : List UInt8) : List UInt8 := if expedited p v then expReq p v else initDownReq p v
+def stop0 (p : Params) (v : List UInt8) : Nat := if expedited p v then v.length else min v.length (p.outSz - 16)
+
+/-- the payload of the server's confirmation of an initiate download -/
+def downConfBody (p : Params) : List UInt8 := sdoBody svcSdoRes (0x60 ||| caBit p.sub.isNone) p.index (subOr1 p) (zeros 4)
+
+theorem sdoWrite_eq (p : Params) (v : List UInt8) : sdoWrite p v = (exchange (firstReq p v) >>= fun d => writeCont p v d) := rfl
+
+/-- the command byte of the initiate-download request -/
+def downCmd (p : Params) : Nat := if p.sub.isNone then od_DOWN_INIT_CA else od_DOWN_INIT
+
+theorem initDownReq_eq (p : Params) (v : List UInt8) :
+    initDownReq p v = sdoHdr (coe_SDOREQ <<< 12) (downCmd p) p.index (subOr1 p) ++
+      (encLE 4 v.length ++ v.take (min v.length (p.outSz - 16))) := rfl
+
+theorem downCmd_facts (p : Params) : downCmd p < 256 ∧ downCmd p >>> 5 = 1 ∧ (downCmd p &&& 0x10 != 0) = p.sub.isNone ∧
+    (downCmd p &&& 2 != 0) = false ∧ (downCmd p &&& 1 == 0) = false := by
+  unfold downCmd
+  cases p.sub <;> simp <;> decide
+
+theorem initDownReq_length (p : Params) (v : List UInt8) : (initDownReq p v).length = 10 + min v.length (p.outSz - 16) := by
+  rw [initDownReq_eq]; simp [sdoHdr_length]; omega
+
+theorem expedited_iff (p : Params) (v : List UInt8) :
+    expedited p v = true ↔ 1 ≤ v.length ∧ v.length ≤ 4 ∧ p.sub.isSome = true := by
+  simp only [expedited, Bool.and_eq_true, decide_eq_true_eq]
+  exact ⟨fun h => ⟨h.1.1, h.1.2, h.2⟩, fun h => ⟨⟨h.1, h.2.1⟩, h.2.2⟩⟩
+
+theorem firstReq_length (p : Params) (v : List UInt8) (hwf : Wf p) :
+    10 ≤ (firstReq p v).length ∧ 6 + (firstReq p v).length ≤ p.outSz := by
+  have := hwf.1
+  unfold firstReq
+  split
+  · rename_i h; obtain ⟨_, h4, _⟩ := (expedited_iff p v).mp h; rw [expReq_length p v h4]; omega
+  · rw [initDownReq_length]; omega
+
+/-- the server on the first request of a download: it confirms, holds the value if it came in one piece and
+otherwise waits for segments with what it has -/
+theorem step_first (p : Params) (hwf : Wf p) (cnt : Nat) (objs : List Obj) (o : Obj) (v : List UInt8)
+    (hobj : Holds p objs o) (hcap : v.length ≤ o.cap) (hv : v.length < 256 ^ 4) :
+    step (init p.outSz p.inSz objs) (msgOf cnt (firstReq p v)) =
+      (⟨p.outSz, p.inSz, if stop0 p v = v.length then store objs p.index (subOr1 p) p.sub.isNone v else objs, 2,
+        if stop0 p v = v.length then .idle else .down p.index (subOr1 p) p.sub.isNone v.length (v.take (stop0 p v)) 0⟩,
+       [srvMail mbxCoE 1 (downConfBody p)]) := by
+  by_cases hexp : expedited p v = true
+  · obtain ⟨h1, h4, hsub⟩ := (expedited_iff p v).mp hexp
+    have hca : p.sub.isNone = false := by cases h : p.sub <;> simp [h] at hsub ⊢
+    have hobj' : find (init p.outSz p.inSz objs).objs p.index (subOr1 p) false = some o := by
+      simpa [Holds, hca, init] using hobj
+    simp only [firstReq, stop0, hexp, if_true]
+    rw [step_download_exp (init p.outSz p.inSz objs) p hwf cnt o v rfl hobj' h1 h4 hcap]
+    simp [respond, mail_eq, init, hca, downConfBody, caBit]
+  · obtain ⟨ho, hi, hi2, hidx, hsb, ho2⟩ := hwf
+    obtain ⟨c1, c2, c3, c4, c5⟩ := downCmd_facts p
+    have hexp' : expedited p v = false := by simpa using hexp
+    simp only [firstReq, stop0, hexp', Bool.false_eq_true, if_false]
+    have hl := initDownReq_length p v
+    have hsvc : u16 (initDownReq p v) 0 >>> 12 = 2 := by
+      rw [initDownReq_eq, u16_sdoHdr0 _ _ _ _ _ (by decide)]; decide
+    rw [step_sdo _ cnt (initDownReq p v) (by omega) (by simp [init]; omega) (by omega) hsvc]
+    have hcmd : byte (initDownReq p v) 2 = downCmd p := by rw [initDownReq_eq, byte_sdoHdr2 _ _ _ _ _ c1]
+    rw [hcmd, c2]
+    simp only [initDownload, rd16_eq_u16, rd8_eq_byte, rd32_eq_u32, c3, c4, c5]
+    rw [initDownReq_eq, u16_sdoHdr3 _ _ _ _ _ hidx, byte_sdoHdr5 _ _ _ _ _ hsb, u32_sdoHdr6 _ _ _ _ _ _ hv, drop10_sdoHdr]
+    have hf : find (init p.outSz p.inSz objs).objs p.index (subOr1 p) p.sub.isNone = some o := hobj
+    have h1 : ¬ v.length > o.cap := by omega
+    have h2 : ¬ (v.take (min v.length (p.outSz - 16))).length > v.length := by simp; omega
+    simp only [hf, h1, h2, if_false, Bool.false_eq_true]
+    by_cases hall : min v.length (p.outSz - 16) = v.length
+    · have : (v.take (min v.length (p.outSz - 16))).length = v.length := by simp [hall]
+      have ht : v.take (min v.length (p.outSz - 16)) = v := by rw [hall]; simp
+      simp [hall, respond, mail_eq, init, downConfBody]
+    · have : (v.take (min v.length (p.outSz - 16))).length ≠ v.length := by simp; omega
+      simp [hall, respond, mail_eq, init, downConfBody]
+
+/-- the master accepts the confirmation (index and the subindex it sent, 1 for complete access) and goes on to the segments -/
+theorem writeCont_confirm (p : Params) (hwf : Wf p) (v : List UInt8) (s : St) :
+    writeCont p v (downConfBody p) s = downStart p v (stop0 p v) s := by
+  obtain ⟨ho, hi, hi2, hidx, hsb, ho2⟩ := hwf
+  obtain ⟨r1, r2⟩ := coeRes_facts
+  have c1 : (0x60 ||| caBit p.sub.isNone) < 256 := by cases p.sub.isNone <;> decide
+  unfold downConfBody
+  rw [sdoBody_eq]
+  have hlen : ¬ (sdoHdr (svcSdoRes <<< 12) (0x60 ||| caBit p.sub.isNone) p.index (subOr1 p) ++ zeros 4).length < 6 := by
+    simp [sdoHdr_length]
+  unfold writeCont
+  simp only [hlen, if_false, u16_sdoHdr0 _ _ _ _ _ r1, u16_sdoHdr3 _ _ _ _ _ hidx, byte_sdoHdr5 _ _ _ _ _ hsb, r2]
+  simp [stop0]
+
+theorem stop0_le (p : Params) (v : List UInt8) : stop0 p v ≤ v.length := by
+  unfold stop0; split <;> omega
+
+/-- **the master's side of a download**: given the first `j` mails of the server it has written the first `j + 1`
+messages, and with all of them it returns -/
+theorem write_master (p : Params) (hwf : Wf p) (cnt : Nat) (sched : List Slot) (hs : SchedOk p.inSz sched)
+    (v : List UInt8) (j : Nat) :
+    let R := srvMail mbxCoE 1 (downConfBody p) :: confMails p v v.length (stop0 p v) 2 0
+    let Q := msgOf cnt (firstReq p v) :: downMsgs p v v.length (stop0 p v) (cntNext cnt) 0
+    sent (run p (.write v) cnt (sched.map (·.full)) (mkMails p.inSz sched (singles (R.take j)))).1 = Q.take (j + 1) ∧
+    (R.length ≤ j → (run p (.write v) cnt (sched.map (·.full)) (mkMails p.inSz sched (singles (R.take j)))).2 = .ok []) := by
+  intro R Q
+  have hb : (firstReq p v).length < 65536 := by have := (firstReq_length p v hwf).2; have := hwf.2.2.2.2.2; omega
+  have hrun : run p (.write v) cnt (sched.map (·.full)) (mkMails p.inSz sched (singles (R.take j))) =
+      ((sdoWrite p v (envSt p.inSz cnt sched (R.take j) [])).1.tr, (sdoWrite p v (envSt p.inSz cnt sched (R.take j) [])).2) := rfl
+  rw [hrun, sdoWrite_eq]
+  cases j with
+  | zero =>
+    obtain ⟨s', h1, h2⟩ := exch_blocked p.inSz cnt sched [] (firstReq p v) hs hb
+    simp only [List.take_zero, bind_err h1, h2]
+    simp [Q, sent]
+  | succ j =>
+    have hcoe : mbxCoE = mbx_COE := by decide
+    have hdec : decodeMail (padTo p.inSz (srvMail mbxCoE 1 (downConfBody p))) = .ok (mbx_COE, downConfBody p) := by
+      rw [← hcoe]
+      have := hwf.2.1
+      exact decodeMail_srvMail _ _ _ _ (by simp [downConfBody, sdoBody_length]; omega)
+        (by simp [downConfBody, sdoBody_length]) (by decide) (by decide)
+    obtain ⟨tr', ht, hx⟩ := exch_ok p.inSz cnt sched [] (firstReq p v) _ _
+      ((confMails p v v.length (stop0 p v) 2 0).take j) hs hb hdec
+    rw [show cnt % mbxMod + 1 = cntNext cnt from rfl] at hx
+    simp only [R, List.take_succ_cons, bind_ok hx, writeCont_confirm p hwf v, downStart]
+    have hfuel : ((confMails p v v.length (stop0 p v) 2 0).take j).length <
+        (envSt p.inSz (cntNext cnt) sched.tail ((confMails p v v.length (stop0 p v) 2 0).take j) tr').mails.length + 1 := by
+      have := length_le_mkMails p.inSz sched.tail ((confMails p v v.length (stop0 p v) 2 0).take j)
+      simp only [envSt]; omega
+    obtain ⟨s', r1, r2⟩ := downLoop_run p hwf v v.length (stop0 p v) j _ 0 (cntNext cnt) 2 sched.tail tr'
+      (by omega) (by decide) (schedOk_tail _ _ hs) hfuel
+    simp only [Nat.mul_zero] at r1
+    rw [r1]
+    refine ⟨?_, ?_⟩
+    · simp only [r2, ht, Q, List.take_succ_cons]; simp [sent]
+    · intro hle
+      have : (confMails p v v.length (stop0 p v) 2 0).length ≤ j := by simp at hle; omega
+      simp only [this, if_true]
+
+theorem downMsgs_fit (p : Params) (hwf : Wf p) (v : List UInt8) (m stop cnt stog : Nat) :
+    ∀ q ∈ downMsgs p v m stop cnt stog, q.length ≤ p.outSz := by
+  induction m generalizing stop cnt stog with
+  | zero => simp [downMsgs]
+  | succ m ih =>
+    intro q hq
+    simp only [downMsgs] at hq
+    split at hq
+    · simp only [List.mem_cons] at hq
+      rcases hq with rfl | hq
+      · have := slice_length_le v stop (min v.length (stop + p.outSz - 9))
+        have := hwf.1
+        rw [msgOf_length, segDownReq_length]; omega
+      · exact ih _ _ _ q hq
+    · simp at hq
+
+/-- **download of any value** (expedited, in one frame, in any number of segments; with subindex or complete access;
+the empty value too): the run of the composed system -/
+theorem write_run (p : Params) (cnt : Nat) (sched : List Slot) (objs : List Obj) (o : Obj) (v : List UInt8) (hwf : Wf p)
+    (hs : SchedOk p.inSz sched) (hobj : Holds p objs o) (hcap : v.length ≤ o.cap) (hv : v.length < 256 ^ 4) :
+    RunIs ⟨p, .write v, cnt, sched, objs⟩ (.ok []) (store objs p.index (subOr1 p) p.sub.isNone v)
+      (srvMail mbxCoE 1 (downConfBody p) :: confMails p v v.length (stop0 p v) 2 0)
+      (msgOf cnt (firstReq p v) :: downMsgs p v v.length (stop0 p v) (cntNext cnt) 0) := by
+  have hfirst := step_first p hwf cnt objs o v hobj hcap hv
+  have hle := stop0_le p v
+  obtain ⟨sN, h1, h2⟩ := serve_down p hwf v v.length (stop0 p v)
+    ⟨p.outSz, p.inSz, if stop0 p v = v.length then store objs p.index (subOr1 p) p.sub.isNone v else objs, 2,
+      if stop0 p v = v.length then .idle else .down p.index (subOr1 p) p.sub.isNone v.length (v.take (stop0 p v)) 0⟩
+    0 (cntNext cnt) p.index (subOr1 p) p.sub.isNone (by omega) hle (by decide) rfl
+    (fun h => by have : stop0 p v ≠ v.length := by omega
+                 simp [this])
+  have hM := fun j => write_master p hwf cnt sched hs v j
+  have hres := conversation ⟨p, .write v, cnt, sched, objs⟩
+    (msgOf cnt (firstReq p v) :: downMsgs p v v.length (stop0 p v) (cntNext cnt) 0)
+    (srvMail mbxCoE 1 (downConfBody p) :: confMails p v v.length (stop0 p v) 2 0)
+    sN (.ok []) (by simp [downMsgs_length p v v.length (stop0 p v) (cntNext cnt) 2 0]) ?_ ?_ (fun j _ => (hM j).1) ?_
+  · intro n hn
+    obtain ⟨a, b, c, d⟩ := hres n hn
+    refine ⟨a, ?_, c, d⟩
+    rw [b, h2]
+    by_cases h : stop0 p v < v.length
+    · have : stop0 p v ≠ v.length := by omega
+      simp [h, this]
+    · have : stop0 p v = v.length := by omega
+      simp [this]
+  · intro q hq
+    simp only [List.mem_cons] at hq
+    rcases hq with rfl | hq
+    · rw [msgOf_length]; exact (firstReq_length p v hwf).2
+    · exact downMsgs_fit p hwf v _ _ _ _ q hq
+  · simp only [Setup.srv, serveAll, hfirst, h1]
+    simp [singles]
+  · have := (hM (srvMail mbxCoE 1 (downConfBody p) :: confMails p v v.length (stop0 p v) 2 0).length).2 (Nat.le_refl _)
+    rw [List.take_length] at this
+    exact this
+
+/-- the object ends up holding the value -/
+theorem write_target (p : Params) (cnt : Nat) (sched : List Slot) (objs : List Obj) (o : Obj) (v : List UInt8) (hwf : Wf p)
+    (hs : SchedOk p.inSz sched) (hobj : Holds p objs o) (hcap : v.length ≤ o.cap) (hv : v.length < 256 ^ 4) :
+    Eventually ⟨p, .write v, cnt, sched, objs⟩
+      (fun r => r.outcome = .ok [] ∧ target ⟨p, .write v, cnt, sched, objs⟩ r.objs = some v) := by
+  refine ⟨(srvMail mbxCoE 1 (downConfBody p) :: confMails p v v.length (stop0 p v) 2 0).length, fun n hn => ?_⟩
+  obtain ⟨a, b, _, _⟩ := write_run p cnt sched objs o v hwf hs hobj hcap hv n hn
+  refine ⟨a, ?_⟩
+  rw [b]
+  simp only [target]
+  rw [find_store _ _ _ _ o v hobj]
   rfl
 
-/-! ### what `sdo_read` writes, for every script of mails (conformant or not) -/
+/-! ## the property: downloads -/
 
-theorem mbxRecv_sent (s : St) : sent (mbxRecv s).1.tr = sent s.tr := by
-  unfold mbxRecv
-  cases s.mails <;> simp
+/-- **expedited download**: 1..4 bytes written with a subindex end up in the object byte for byte and the call returns —
+under every schedule, unrelated mail before the confirmation included -/
+theorem write_expedited_exact (p : Params) (cnt : Nat) (sched : List Slot) (objs : List Obj) (o : Obj) (v : List UInt8)
+    (hwf : Wf p) (hs : SchedOk p.inSz sched) (_hsub : p.sub.isSome = true) (hobj : Holds p objs o)
+    (_h1 : 1 ≤ v.length) (h4 : v.length ≤ 4) (hcap : v.length ≤ o.cap) :
+    Eventually ⟨p, .write v, cnt, sched, objs⟩
+      (fun r => r.outcome = .ok [] ∧ target ⟨p, .write v, cnt, sched, objs⟩ r.objs = some v) :=
+  write_target p cnt sched objs o v hwf hs hobj hcap (by omega)
 
-theorem sent_recvCoeL (ms : List Mail) : sent (recvCoeL ms).1 = [] := by
-  induction ms with
-  | nil => rfl
-  | cons m ms ih =>
-    unfold recvCoeL
-    cases decodeMail m.raw with
-    | err e => simp
-    | ok td =>
-      obtain ⟨t, d⟩ := td
-      by_cases h : t = mbx_COE <;> simp [h, ih]
+/-- **normal and segmented download**: more than 4 bytes written with a subindex — one frame or any number of
+segments, a short last one included — end up in the object byte for byte -/
+theorem write_normal_exact (p : Params) (cnt : Nat) (sched : List Slot) (objs : List Obj) (o : Obj) (v : List UInt8)
+    (hwf : Wf p) (hs : SchedOk p.inSz sched) (_hsub : p.sub.isSome = true) (hobj : Holds p objs o)
+    (_h5 : 4 < v.length) (hcap : v.length ≤ o.cap) (hv : v.length < 256 ^ 4) :
+    Eventually ⟨p, .write v, cnt, sched, objs⟩
+      (fun r => r.outcome = .ok [] ∧ target ⟨p, .write v, cnt, sched, objs⟩ r.objs = some v) :=
+  write_target p cnt sched objs o v hwf hs hobj hcap hv
 
-theorem recvCoe_sent (s : St) : sent (recvCoe s).1.tr = sent s.tr := by
-  simp [recvCoe, sent_recvCoeL]
+/-- **download with complete access** (no subindex), any length -/
+theorem write_complete_exact (p : Params) (cnt : Nat) (sched : List Slot) (objs : List Obj) (o : Obj) (v : List UInt8)
+    (hwf : Wf p) (hs : SchedOk p.inSz sched) (_hsub : p.sub = none) (hobj : Holds p objs o)
+    (hcap : v.length ≤ o.cap) (hv : v.length < 256 ^ 4) :
+    Eventually ⟨p, .write v, cnt, sched, objs⟩
+      (fun r => r.outcome = .ok [] ∧ target ⟨p, .write v, cnt, sched, objs⟩ r.objs = some v) :=
+  write_target p cnt sched objs o v hwf hs hobj hcap hv
 
-/-- `mbx_send` either fails before writing anything or writes exactly the message for its payload -/
-theorem mbxSend_cases (body : List UInt8) (s : St) :
-    (∃ e, (mbxSend body s).2 = .err e ∧ sent (mbxSend body s).1.tr = sent s.tr) ∨
-    (∃ c, (mbxSend body s).2 = .ok () ∧ sent (mbxSend body s).1.tr = sent s.tr ++ [msgOf c body]) := by
-  obtain ⟨cnt, fulls, mails, tr⟩ := s
-  by_cases hb : body.length ≥ 65536
-  · left
-    cases fulls with
-    | nil => exact ⟨.structError, by simp [mbxSend, bind, M.bind, pollOut, nextCounter, hb, fail, sent]⟩
-    | cons f fs =>
-      cases f with
-      | false => exact ⟨.structError, by simp [mbxSend, bind, M.bind, pollOut, nextCounter, hb, fail, sent]⟩
-      | true =>
-        cases mails with
-        | nil => exact ⟨.blocked, by simp [mbxSend, bind, M.bind, pollOut, discardMail, mbxRecv, sent]⟩
-        | cons m ms =>
-          cases hd : decodeMail m.raw with
-          | err e => exact ⟨e, by simp [mbxSend, bind, M.bind, pollOut, discardMail, mbxRecv, hd, sent]⟩
-          | ok td => exact ⟨.structError, by simp [mbxSend, bind, M.bind, pollOut, discardMail, mbxRecv, hd, nextCounter, hb, fail, sent]⟩
-  · cases fulls with
-    | nil => right; exact ⟨cnt, by simp [mbxSend, bind, M.bind, pollOut, nextCounter, hb, emit, msgOf, sent]⟩
-    | cons f fs =>
-      cases f with
-      | false => right; exact ⟨cnt, by simp [mbxSend, bind, M.bind, pollOut, nextCounter, hb, emit, msgOf, sent]⟩
-      | true =>
-        cases mails with
-        | nil => left; exact ⟨.blocked, by simp [mbxSend, bind, M.bind, pollOut, discardMail, mbxRecv, sent]⟩
-        | cons m ms =>
-          cases hd : decodeMail m.raw with
-          | err e => left; exact ⟨e, by simp [mbxSend, bind, M.bind, pollOut, discardMail, mbxRecv, hd, sent]⟩
-          | ok td =>
-            right
-            exact ⟨cnt, by simp [mbxSend, bind, M.bind, pollOut, discardMail, mbxRecv, hd, nextCounter, hb, emit, msgOf, sent]⟩
+/-- **download of the empty value**: the object ends up empty (a normal transfer of complete size 0) -/
+theorem write_zero_exact (p : Params) (cnt : Nat) (sched : List Slot) (objs : List Obj) (o : Obj)
+    (hwf : Wf p) (hs : SchedOk p.inSz sched) (hobj : Holds p objs o) :
+    Eventually ⟨p, .write [], cnt, sched, objs⟩
+      (fun r => r.outcome = .ok [] ∧ target ⟨p, .write [], cnt, sched, objs⟩ r.objs = some []) :=
+  write_target p cnt sched objs o [] hwf hs hobj (by simp) (by simp)
 
-/-- the SDO command byte of a mailbox message -/
-def cmdOf (m : List UInt8) : Nat := byte m 8
+/-! ### what the master writes, for every script of mails (conformant server or not) -/
 
-/-- upload segment requests with toggles alternating from `t` -/
-def altCmds : Nat → Nat → List Nat
-  | 0, _ => []
-  | n + 1, t => (od_SEG_UP_REQ + t) :: altCmds n (t ^^^ 0x10)
+/-- an exchange writes at most its own message, and exactly that when it gets an answer -/
+theorem exchange_sent (body : List UInt8) (s : St) :
+    ∃ ext : List (List UInt8), sent (exchange body s).1.tr = sent s.tr ++ ext ∧
+      (ext = [] ∨ ∃ c, ext = [msgOf c body]) ∧ (∀ d, (exchange body s).2 = .ok d → ext ≠ []) := by
+  rw [exchange_eq]
+  cases h1 : mbxSend body s with
+  | mk s1 r1 =>
+    rcases mbxSend_cases body s with ⟨e, he, hs⟩ | ⟨c, hok, hs⟩
+    · rw [h1] at he hs; simp only at he hs; subst he
+      rw [bind_err h1]
+      exact ⟨[], by simpa using hs, Or.inl rfl, by intro d hd; simp at hd⟩
+    · rw [h1] at hok hs; simp only at hok hs; subst hok
+      rw [bind_ok h1]
+      exact ⟨[msgOf c body], by rw [recvCoe_sent, hs], Or.inr ⟨c, rfl⟩, by simp⟩
 
-theorem cmdOf_msgOf (c : Nat) (body : List UInt8) : cmdOf (msgOf c body) = byte body 2 := by
-  simp [cmdOf, msgOf, mbxHeader, byte, encLE]
+theorem finish_fst (size : Nat) (ret : List (List UInt8)) (rs : Nat) (s : St) : (finish size ret rs s).1 = s := by
+  unfold finish; split <;> rfl
 
-theorem finish_fst (size : Nat) (ret : List Item) (rs : Int) (s : St) : (finish size ret rs s).1 = s := by
-  unfold finish
-  split
-  · rfl
-  · cases joinItems ret <;> rfl
-
-theorem segUpReq_facts (p : Params) (t : Nat) (ht : t = 0 ∨ t = 0x10) :
-    (segUpReq p t).length = 10 ∧ byte (segUpReq p t) 2 = od_SEG_UP_REQ + t := by
-  refine ⟨by simp [segUpReq, sdoHdr_length], ?_⟩
+theorem segUpReq_cmd (p : Params) (t : Nat) (ht : t = 0 ∨ t = 0x10) : byte (segUpReq p t) 2 = od_SEG_UP_REQ + t := by
   unfold segUpReq
   rw [byte_sdoHdr2]
   rcases ht with rfl | rfl <;> decide
 
-theorem segLoop_sent (p : Params) : ∀ (fuel size : Nat) (ret : List Item) (rs : Int) (t : Nat) (s : St),
+/-- messages of 16 bytes whose command bytes are upload segment requests with toggles alternating from `t` -/
+def SegReqs (t : Nat) (ext : List (List UInt8)) : Prop :=
+  (∀ m ∈ ext, m.length = 16) ∧ ext.map cmdOf = altCmds ext.length t
+
+theorem segLoop_sent (p : Params) : ∀ (fuel size : Nat) (ret : List (List UInt8)) (rs t : Nat) (s : St),
     (t = 0 ∨ t = 0x10) →
-    ∃ ext : List (List UInt8), sent (segLoop p fuel size ret rs t s).1.tr = sent s.tr ++ ext ∧
-      (∀ m ∈ ext, m.length = 16) ∧ ext.map cmdOf = altCmds ext.length t := by
+    ∃ ext : List (List UInt8), sent (segLoop p fuel size ret rs t s).1.tr = sent s.tr ++ ext ∧ SegReqs t ext := by
   intro fuel
   induction fuel with
   | zero => intro size ret rs t s _; exact ⟨[], by simp [segLoop, fail], by simp, rfl⟩
   | succ fuel ih =>
     intro size ret rs t s ht
     unfold segLoop
-    by_cases hlt : rs < (size : Int)
+    by_cases hlt : rs < size
     · simp only [hlt, if_true]
-      obtain ⟨hl, hc⟩ := segUpReq_facts p t ht
       have ht' : t ^^^ 0x10 = 0 ∨ t ^^^ 0x10 = 0x10 := by rcases ht with rfl | rfl <;> decide
-      cases h1 : mbxSend (segUpReq p t) s with
+      obtain ⟨ext, e1, e2, e3⟩ := exchange_sent (segUpReq p t) s
+      have hone : SegReqs t ext := by
+        rcases e2 with rfl | ⟨c, rfl⟩
+        · exact ⟨by simp, rfl⟩
+        · exact ⟨by simp [segUpReq_length], by simp [altCmds, cmdOf_msgOf, segUpReq_cmd p t ht]⟩
+      cases hx : exchange (segUpReq p t) s with
       | mk s1 r1 =>
-        rcases mbxSend_cases (segUpReq p t) s with ⟨e, he, hs⟩ | ⟨c, hok, hs⟩
-        · rw [h1] at he hs; simp only at he hs; subst he
-          rw [bind_err h1]
-          exact ⟨[], by simpa using hs, by simp, rfl⟩
-        · rw [h1] at hok hs; simp only at hok hs; subst hok
-          rw [bind_ok h1]
-          have hm : (msgOf c (segUpReq p t)).length = 16 := by simp [hl]
-          have hcm : cmdOf (msgOf c (segUpReq p t)) = od_SEG_UP_REQ + t := by rw [cmdOf_msgOf, hc]
-          have one : ∃ ext : List (List UInt8), sent s1.tr = sent s.tr ++ ext ∧
-              (∀ m ∈ ext, m.length = 16) ∧ ext.map cmdOf = altCmds ext.length t :=
-            ⟨[msgOf c (segUpReq p t)], hs, by simp [hm], by simp [altCmds, hcm]⟩
-          cases h2 : mbxRecv s1 with
-          | mk s2 r2 =>
-            have hs2 : sent s2.tr = sent s1.tr := by have := mbxRecv_sent s1; rw [h2] at this; exact this
-            cases r2 with
-            | err e => rw [bind_err h2]; simpa [hs2] using one
-            | ok td =>
-              rw [bind_ok h2]
-              obtain ⟨typ, data⟩ := td
-              have stop : ∀ x : St × R (List UInt8), x.1 = s2 → ∃ ext : List (List UInt8), sent x.1.tr = sent s.tr ++ ext ∧
-                  (∀ m ∈ ext, m.length = 16) ∧ ext.map cmdOf = altCmds ext.length t := by
-                intro x hx; rw [hx, hs2]; exact one
-              simp only []
-              split
+        rw [hx] at e1 e3; simp only at e1 e3
+        cases r1 with
+        | err e => rw [bind_err hx]; exact ⟨ext, e1, hone⟩
+        | ok data =>
+          rw [bind_ok hx]
+          obtain ⟨c, rfl⟩ : ∃ c, ext = [msgOf c (segUpReq p t)] := by
+            rcases e2 with rfl | h
+            · exact absurd rfl (e3 data rfl)
+            · exact h
+          have stop : ∀ x : St × R (List UInt8), x.1 = s1 → ∃ ext : List (List UInt8),
+              sent x.1.tr = sent s.tr ++ ext ∧ SegReqs t ext := by
+            intro x hx'; rw [hx']; exact ⟨_, e1, hone⟩
+          split
+          · exact stop _ rfl
+          · split
+            · exact stop _ rfl
+            · split
               · exact stop _ rfl
               · split
-                · exact stop _ rfl
-                · split
-                  · exact stop _ rfl
-                  · split
-                    · exact stop _ rfl
-                    · split
-                      · exact stop _ (finish_fst _ _ _ _)
-                      · obtain ⟨ext, e1, e2, e3⟩ := ih size _ _ (t ^^^ 0x10) s2 ht'
-                        refine ⟨msgOf c (segUpReq p t) :: ext, ?_, ?_, ?_⟩
-                        · rw [e1, hs2, hs]; simp
-                        · intro m hm'; simp at hm'; rcases hm' with rfl | h
-                          · exact hm
-                          · exact e2 m h
-                        · simp [altCmds, hcm, e3]
+                · exact stop _ (finish_fst _ _ _ _)
+                · obtain ⟨ext', f1, f2, f3⟩ := ih size _ _ (t ^^^ 0x10) s1 ht'
+                  refine ⟨msgOf c (segUpReq p t) :: ext', by rw [f1, e1]; simp, ?_, ?_⟩
+                  · intro m hm; simp at hm; rcases hm with rfl | h
+                    · simp [segUpReq_length]
+                    · exact f2 m h
+                  · simp [altCmds, cmdOf_msgOf, segUpReq_cmd p t ht, f3]
     · simp only [hlt, if_false]
       exact ⟨[], by simp [finish_fst], by simp, rfl⟩
 
 theorem readCont_sent (p : Params) (data : List UInt8) (s : St) :
-    ∃ ext : List (List UInt8), sent (readCont p data s).1.tr = sent s.tr ++ ext ∧
-      (∀ m ∈ ext, m.length = 16) ∧ ext.map cmdOf = altCmds ext.length 0 := by
-  have stop : ∀ x : St × R (List UInt8), x.1 = s → ∃ ext : List (List UInt8), sent x.1.tr = sent s.tr ++ ext ∧
-      (∀ m ∈ ext, m.length = 16) ∧ ext.map cmdOf = altCmds ext.length 0 := by
+    ∃ ext : List (List UInt8), sent (readCont p data s).1.tr = sent s.tr ++ ext ∧ SegReqs 0 ext := by
+  have stop : ∀ x : St × R (List UInt8), x.1 = s → ∃ ext : List (List UInt8),
+      sent x.1.tr = sent s.tr ++ ext ∧ SegReqs 0 ext := by
     intro x hx; rw [hx]; exact ⟨[], by simp, by simp, rfl⟩
   unfold readCont
   split
@@ -866,26 +1191,26 @@ theorem read_requests_fit_and_toggle (p : Params) (hwf : Wf p) (cnt : Nat) (full
       ∃ k, (sent (run p .read cnt fulls mails).1).map cmdOf = upCmd p :: altCmds k 0) := by
   have hout : 16 ≤ p.outSz := hwf.1
   have key : sent (run p .read cnt fulls mails).1 = [] ∨
-      ∃ c ext, sent (run p .read cnt fulls mails).1 = msgOf c (upReq p) :: ext ∧
-        (∀ m ∈ ext, m.length = 16) ∧ ext.map cmdOf = altCmds ext.length 0 := by
+      ∃ c ext, sent (run p .read cnt fulls mails).1 = msgOf c (upReq p) :: ext ∧ SegReqs 0 ext := by
     simp only [run, master, sdoRead_eq]
-    cases h1 : mbxSend (upReq p) ⟨cnt, fulls, mails, []⟩ with
+    obtain ⟨ext, e1, e2, e3⟩ := exchange_sent (upReq p) ⟨cnt, fulls, mails, []⟩
+    cases hx : exchange (upReq p) ⟨cnt, fulls, mails, []⟩ with
     | mk s1 r1 =>
-      rcases mbxSend_cases (upReq p) ⟨cnt, fulls, mails, []⟩ with ⟨e, he, hs⟩ | ⟨c, hok, hs⟩
-      · rw [h1] at he hs; simp only at he hs; subst he
-        rw [bind_err h1]; left; simpa [sent] using hs
-      · rw [h1] at hok hs; simp only at hok hs; subst hok
-        rw [bind_ok h1]
-        right
-        cases h2 : recvCoe s1 with
-        | mk s2 r2 =>
-          have hs2 : sent s2.tr = sent s1.tr := by have := recvCoe_sent s1; rw [h2] at this; exact this
-          cases r2 with
-          | err e => rw [bind_err h2]; exact ⟨c, [], by simpa [hs2, sent] using hs, by simp, rfl⟩
-          | ok data =>
-            rw [bind_ok h2]
-            obtain ⟨ext, e1, e2, e3⟩ := readCont_sent p data s2
-            exact ⟨c, ext, by rw [e1, hs2, hs]; simp [sent], e2, e3⟩
+      rw [hx] at e1 e3; simp only at e1 e3
+      cases r1 with
+      | err e =>
+        rw [bind_err hx]
+        rcases e2 with rfl | ⟨c, rfl⟩
+        · left; simpa [sent] using e1
+        · right; exact ⟨c, [], by simpa [sent] using e1, by simp, rfl⟩
+      | ok data =>
+        rw [bind_ok hx]
+        obtain ⟨c, rfl⟩ : ∃ c, ext = [msgOf c (upReq p)] := by
+          rcases e2 with rfl | h
+          · exact absurd rfl (e3 data rfl)
+          · exact h
+        obtain ⟨ext', f1, f2⟩ := readCont_sent p data s1
+        right; exact ⟨c, ext', by rw [f1, e1]; simp [sent], f2⟩
   rcases key with h | ⟨c, ext, h, e2, e3⟩
   · rw [h]; simp
   · rw [h]
@@ -898,442 +1223,198 @@ theorem read_requests_fit_and_toggle (p : Params) (hwf : Wf p) (cnt : Nat) (full
         rw [cmdOf_msgOf, upReq_eq, byte_sdoHdr2 _ _ _ _ _ (upCmd_facts p).1]
       simp [hc, e3]
 
-/-! ### every mail of the server fits the send mailbox, whatever it is asked -/
+/-- the toggle bit of a message's SDO command byte -/
+def togOf (m : List UInt8) : Nat := (cmdOf m >>> 4) &&& 1
 
-def Good (inSz : Nat) (x : Srv × List (List UInt8)) : Prop := x.1.inSz = inSz ∧ ∀ m ∈ x.2, m.length ≤ inSz
+/-- 0, 1, 0, 1, … from `b` -/
+def altBits : Nat → Nat → List Nat
+  | 0, _ => []
+  | n + 1, b => b :: altBits n (b ^^^ 1)
 
-theorem good_mail (s : Srv) (typ : Nat) (body : List UInt8) (n : Nat) (hs : s.inSz = n) (h : 6 + body.length ≤ n) :
-    Good n (mail s typ body) := by
-  rw [mail_eq]
-  exact ⟨hs, by simp; omega⟩
+theorem segDownReq_tog (c stog : Nat) (last : Bool) (d : List UInt8) (hst : stog < 2) :
+    togOf (msgOf c (segDownReq (16 * stog) last d)) = stog := by
+  have hk : padN d.length < 8 := by unfold padN; split <;> omega
+  have hl2 : (if last then 1 else 0 : Nat) < 2 := by split <;> omega
+  obtain ⟨b1, _, b3, _, _⟩ := downCmd_bits stog hst (if last then 1 else 0) hl2 (padN d.length) hk
+  have : byte (segDownReq (16 * stog) last d) 2 = (16 * stog ||| (if last then 1 else 0)) ||| padN d.length <<< 1 := by
+    have h : byte (segDownReq (16 * stog) last d) 2 = segDownCmd (16 * stog) last d.length % 256 := by
+      rw [segDownReq_cons]; exact UInt8.toNat_ofNat'
+    rw [h, segDownCmd_eq]
+    show _ % 256 = (16 * stog ||| (if last then 1 else 0)) ||| padN d.length <<< 1
+    unfold padN at b1 ⊢
+    omega
+  rw [togOf, cmdOf_msgOf, this, b3]
 
-theorem good_mbxError (s : Srv) (code : Nat) (h : 16 ≤ s.inSz) : Good s.inSz (mbxError s code) :=
-  good_mail _ _ _ _ rfl (by simp; omega)
+/-- download segments that fit the receive mailbox, toggles alternating from `b` -/
+def DownSegs (outSz b : Nat) (ext : List (List UInt8)) : Prop :=
+  (∀ m ∈ ext, m.length ≤ outSz) ∧ ext.map togOf = altBits ext.length b
 
-theorem good_abort (s : Srv) (i sub code : Nat) (h : 16 ≤ s.inSz) : Good s.inSz (abort s i sub code) :=
-  good_mail _ _ _ _ rfl (by simp [sdoBody_length]; omega)
+theorem downLoop_sent (p : Params) (hwf : Wf p) (v : List UInt8) : ∀ (fuel stop stog : Nat) (s : St), stog < 2 →
+    ∃ ext : List (List UInt8), sent (downLoop p v fuel stop (16 * stog) s).1.tr = sent s.tr ++ ext ∧
+      DownSegs p.outSz stog ext := by
+  have hout := hwf.1
+  intro fuel
+  induction fuel with
+  | zero => intro stop stog s _; exact ⟨[], by simp [downLoop, fail], by simp, rfl⟩
+  | succ fuel ih =>
+    intro stop stog s hst
+    unfold downLoop
+    by_cases hlt : stop < v.length
+    · simp only [hlt, if_true]
+      obtain ⟨x1, x2⟩ := tog_xor stog hst
+      obtain ⟨ext, e1, e2, e3⟩ := exchange_sent (segDownReq (16 * stog) (min v.length (stop + p.outSz - 9) = v.length)
+        (slice v stop (min v.length (stop + p.outSz - 9)))) s
+      have hfit : ∀ c, (msgOf c (segDownReq (16 * stog) (min v.length (stop + p.outSz - 9) = v.length)
+          (slice v stop (min v.length (stop + p.outSz - 9))))).length ≤ p.outSz := by
+        intro c
+        have := slice_length_le v stop (min v.length (stop + p.outSz - 9))
+        rw [msgOf_length, segDownReq_length]; omega
+      have hone : DownSegs p.outSz stog ext := by
+        rcases e2 with rfl | ⟨c, rfl⟩
+        · exact ⟨by simp, rfl⟩
+        · exact ⟨by simpa using hfit c, by simp [altBits, segDownReq_tog _ _ _ _ hst]⟩
+      cases hx : exchange (segDownReq (16 * stog) (min v.length (stop + p.outSz - 9) = v.length)
+          (slice v stop (min v.length (stop + p.outSz - 9)))) s with
+      | mk s1 r1 =>
+        rw [hx] at e1 e3; simp only at e1 e3
+        cases r1 with
+        | err e => rw [bind_err hx]; exact ⟨ext, e1, hone⟩
+        | ok data =>
+          rw [bind_ok hx]
+          obtain ⟨c, rfl⟩ : ∃ c, ext = [msgOf c (segDownReq (16 * stog) (min v.length (stop + p.outSz - 9) = v.length)
+              (slice v stop (min v.length (stop + p.outSz - 9))))] := by
+            rcases e2 with rfl | h
+            · exact absurd rfl (e3 data rfl)
+            · exact h
+          split
+          · exact ⟨_, e1, hone⟩
+          · split
+            · exact ⟨_, e1, hone⟩
+            · rw [x1]
+              obtain ⟨ext', f1, f2, f3⟩ := ih (min v.length (stop + p.outSz - 9)) (stog ^^^ 1) s1 x2
+              refine ⟨msgOf c (segDownReq (16 * stog) (min v.length (stop + p.outSz - 9) = v.length)
+                (slice v stop (min v.length (stop + p.outSz - 9)))) :: ext', by rw [f1, e1]; simp, ?_, ?_⟩
+              · intro m hm; simp at hm; rcases hm with rfl | h
+                · exact hfit c
+                · exact f2 m h
+              · simp [altBits, segDownReq_tog _ _ _ _ hst, f3]
+    · simp only [hlt, if_false]
+      exact ⟨[], by simp [pure, M.pure], by simp, rfl⟩
 
-theorem good_respond (s : Srv) (cmd i sub : Nat) (rest : List UInt8) (n : Nat) (hs : s.inSz = n) (h : 12 + rest.length ≤ n) :
-    Good n (respond s cmd i sub rest) :=
-  good_mail _ _ _ _ hs (by simp [sdoBody_length]; omega)
+/-- **what a download writes, for every script of mails** (conformant server or not, any value, any interleaving): every
+message fits the receive mailbox, and the toggle bits of the segments after the first message are 0, 1, 0, 1, … -/
+theorem write_requests_fit_and_toggle (p : Params) (hwf : Wf p) (v : List UInt8) (cnt : Nat) (fulls : List Bool)
+    (mails : List Mail) :
+    (∀ m ∈ sent (run p (.write v) cnt fulls mails).1, m.length ≤ p.outSz) ∧
+    ((sent (run p (.write v) cnt fulls mails).1).drop 1).map togOf =
+      altBits ((sent (run p (.write v) cnt fulls mails).1).length - 1) 0 := by
+  have key : sent (run p (.write v) cnt fulls mails).1 = [] ∨
+      ∃ c ext, sent (run p (.write v) cnt fulls mails).1 = msgOf c (firstReq p v) :: ext ∧ DownSegs p.outSz 0 ext := by
+    simp only [run, master, sdoWrite_eq]
+    obtain ⟨ext, e1, e2, e3⟩ := exchange_sent (firstReq p v) ⟨cnt, fulls, mails, []⟩
+    cases hx : exchange (firstReq p v) ⟨cnt, fulls, mails, []⟩ with
+    | mk s1 r1 =>
+      rw [hx] at e1 e3; simp only at e1 e3
+      cases r1 with
+      | err e =>
+        rw [bind_err hx]
+        rcases e2 with rfl | ⟨c, rfl⟩
+        · left; simpa [sent] using e1
+        · right; exact ⟨c, [], by simpa [sent] using e1, by simp, rfl⟩
+      | ok data =>
+        rw [bind_ok hx]
+        obtain ⟨c, rfl⟩ : ∃ c, ext = [msgOf c (firstReq p v)] := by
+          rcases e2 with rfl | h
+          · exact absurd rfl (e3 data rfl)
+          · exact h
+        right
+        have stop : ∀ x : St × R (List UInt8), x.1 = s1 → ∃ c' ext', sent x.1.tr = msgOf c' (firstReq p v) :: ext' ∧
+            DownSegs p.outSz 0 ext' := by
+          intro x hx'; rw [hx']; exact ⟨c, [], by simpa [sent] using e1, by simp, rfl⟩
+        unfold writeCont
+        split
+        · exact stop _ rfl
+        · split
+          · exact stop _ rfl
+          · split
+            · exact stop _ rfl
+            · obtain ⟨ext', f1, f2⟩ := downLoop_sent p hwf v (s1.mails.length + 1) _ 0 s1 (by decide)
+              exact ⟨c, ext', by simp only [downStart]; simp only [Nat.mul_zero] at f1; rw [f1, e1]; simp [sent], f2⟩
+  rcases key with h | ⟨c, ext, h, e2, e3⟩
+  · rw [h]; simp [altBits]
+  · rw [h]
+    refine ⟨?_, by simpa using e3⟩
+    intro m hm; simp at hm
+    rcases hm with rfl | hm
+    · rw [msgOf_length]; exact (firstReq_length p v hwf).2
+    · exact e2 m hm
 
-theorem good_ite {n : Nat} {c : Prop} [Decidable c] {a b : Srv × List (List UInt8)}
-    (ha : c → Good n a) (hb : ¬ c → Good n b) : Good n (if c then a else b) := by
-  split
-  · exact ha ‹_›
-  · exact hb ‹_›
-
-theorem good_initDownload (s : Srv) (cmd : Nat) (body : List UInt8) (h : 16 ≤ s.inSz) :
-    Good s.inSz (initDownload s cmd body) := by
-  unfold initDownload
-  dsimp only []
-  cases find s.objs (rd16 body 3) (rd8 body 5) (cmd &&& 0x10 != 0) with
-  | none => exact good_abort _ _ _ _ h
-  | some o =>
-    dsimp only []
-    refine good_ite (fun _ => good_ite (fun _ => good_abort _ _ _ _ h) (fun _ => good_respond _ _ _ _ _ _ rfl ?_))
-      (fun _ => good_ite (fun _ => good_abort _ _ _ _ h) (fun _ => good_ite (fun _ => good_abort _ _ _ _ h)
-        (fun _ => good_ite (fun _ => good_abort _ _ _ _ h) (fun _ => good_ite
-          (fun _ => good_respond _ _ _ _ _ _ rfl ?_) (fun _ => good_respond _ _ _ _ _ _ rfl ?_)))))
-    all_goals (simp; omega)
-
-theorem good_downloadSegment (s : Srv) (cmd dlen : Nat) (body : List UInt8) (h : 16 ≤ s.inSz) :
-    Good s.inSz (downloadSegment s cmd dlen body) := by
-  unfold downloadSegment
-  cases s.xfer with
-  | down i sub ca size buf tog =>
-    dsimp only []
-    refine good_ite (fun _ => good_abort _ _ _ _ h) (fun _ => good_ite (fun _ => good_abort _ _ _ _ h)
-      (fun _ => good_ite (fun _ => good_ite (fun _ => good_abort _ _ _ _ h) (fun _ => good_mail _ _ _ _ rfl ?_))
-        (fun _ => good_mail _ _ _ _ rfl ?_)))
-    all_goals (simp; omega)
-  | idle => exact good_abort _ _ _ _ h
-  | up i sub ca rest tog => exact good_abort _ _ _ _ h
-
-theorem good_initUpload (s : Srv) (cmd : Nat) (body : List UInt8) (h : 16 ≤ s.inSz) :
-    Good s.inSz (initUpload s cmd body) := by
-  unfold initUpload
-  dsimp only []
-  cases find s.objs (rd16 body 3) (rd8 body 5) (cmd &&& 0x10 != 0) with
-  | none => exact good_abort _ _ _ _ h
-  | some o =>
-    dsimp only []
-    refine good_ite (fun hc => good_respond _ _ _ _ _ _ rfl ?_) (fun _ => good_respond _ _ _ _ _ _ ?_ ?_)
-    · simp; omega
-    · split <;> rfl
-    · simp; omega
-
-theorem good_uploadSegment (s : Srv) (cmd : Nat) (h : 16 ≤ s.inSz) : Good s.inSz (uploadSegment s cmd) := by
-  unfold uploadSegment
-  cases s.xfer with
-  | up i sub ca rest tog =>
-    dsimp only []
-    refine good_ite (fun _ => good_abort _ _ _ _ h) (fun _ => good_mail _ _ _ _ ?_ ?_)
-    · split <;> rfl
-    · simp; split <;> omega
-  | idle => exact good_abort _ _ _ _ h
-  | down i sub ca size buf tog => exact good_abort _ _ _ _ h
-
-theorem good_step (s : Srv) (msg : List UInt8) (h : 16 ≤ s.inSz) : Good s.inSz (step s msg) := by
-  unfold step
-  refine good_ite (fun _ => ⟨rfl, by simp⟩) (fun _ => ?_)
-  dsimp only []
-  refine good_ite (fun _ => good_mbxError _ _ h) (fun _ => good_ite (fun _ => good_mbxError _ _ h)
-    (fun _ => good_ite (fun _ => good_mbxError _ _ h) (fun _ => good_ite (fun _ => good_mbxError _ _ h)
-      (fun _ => good_ite (fun _ => good_mbxError _ _ h) (fun _ => ?_)))))
-  split
-  · exact good_initDownload _ _ _ h
-  · exact good_downloadSegment _ _ _ _ h
-  · exact good_initUpload _ _ _ h
-  · exact good_uploadSegment _ _ h
-  · exact ⟨rfl, by simp⟩
-  · exact good_abort _ _ _ _ h
-
-/-- **every response fits**: whatever requests arrive, in whatever state, no mail of the server is longer than
-the send mailbox -/
-theorem server_responses_fit (s : Srv) (reqs : List (List UInt8)) (h : 16 ≤ s.inSz) :
-    ∀ rs ∈ (serveAll s reqs).2, ∀ m ∈ rs, m.length ≤ s.inSz := by
-  induction reqs generalizing s with
-  | nil => simp [serveAll]
-  | cons r reqs ih =>
-    obtain ⟨g1, g2⟩ := good_step s r h
-    simp only [serveAll]
-    intro rs hrs
-    simp at hrs
-    rcases hrs with rfl | hrs
-    · exact g2
-    · have := ih (step s r).1 (by rw [g1]; exact h) rs hrs
-      rw [g1] at this; exact this
-
-/-! ## the modes the code gets wrong -/
-
-/-- the run of the composed system settles, and what it settles on satisfies `P` -/
-def Eventually (c : Setup) (P : Result → Prop) : Prop := ∃ N, ∀ n, N ≤ n → P (system c n)
-
-theorem iter_add {α : Type} (f : α → α) (a b : Nat) (x : α) : iter f (a + b) x = iter f b (iter f a x) := by
-  induction a generalizing x with
-  | zero => simp [iter]
-  | succ a ih => rw [Nat.succ_add]; simp [iter, ih]
-
-/-- once a round changes nothing the run has settled -/
-theorem system_stable (c : Setup) (k : Nat) (h : round c (mailsAfter c k) = mailsAfter c k) :
-    ∀ n, k ≤ n → system c n = system c k := by
-  intro n hn
-  obtain ⟨j, rfl⟩ : ∃ j, n = k + j := ⟨n - k, by omega⟩
-  have : mailsAfter c (k + j) = mailsAfter c k := by
-    unfold mailsAfter at h ⊢
-    rw [iter_add, iter_fix _ _ h]
-  simp only [system, this]
-
-theorem not_eventually (c : Setup) (k : Nat) (P : Result → Prop)
-    (hfix : round c (mailsAfter c k) = mailsAfter c k) (hP : ¬ P (system c k)) : ¬ Eventually c P := by
-  rintro ⟨N, hN⟩
-  have := hN (max N k) (Nat.le_max_left _ _)
-  rw [system_stable c k hfix _ (Nat.le_max_right _ _)] at this
-  exact hP this
-
-theorem schedOk_nil (inSz : Nat) : SchedOk inSz [] := by intro sl h; cases h
-theorem delaysOnly_nil : DelaysOnly [] := by intro sl h; cases h
-
-/-! ### segmented upload -/
-
-/-- full strength: an object that does not fit the first response is returned byte for byte as well -/
-def read_segmented_full : Prop :=
-  ∀ (p : Params) (cnt : Nat) (sched : List Slot) (objs : List Obj) (o : Obj),
-    Wf p → SchedOk p.inSz sched → Holds p objs o → p.inSz < o.val.length + 16 →
-    Eventually ⟨p, .read, cnt, sched, objs⟩ (fun r => r.outcome = .ok o.val)
-
-/-- 24-byte mailboxes, 23 bytes: 8 in the first response, 15 in one full segment -/
-def segWitness : Setup :=
-  ⟨⟨24, 24, 0x2000, some 1⟩, .read, 0, [],
-   [⟨0x2000, 1, false, 32, [1,2,3,4,5,6,7,8,9,10,11,12,13,14,15,16,17,18,19,20,21,22,23]⟩]⟩
-
-/-- 24-byte mailboxes, 9 bytes: 8 in the first response, 1 in a last segment padded to 7 -/
-def segWitnessShort : Setup :=
-  ⟨⟨24, 24, 0x2000, some 1⟩, .read, 0, [], [⟨0x2000, 1, false, 32, [1,2,3,4,5,6,7,8,9]⟩]⟩
-
-/-- `ret += data[3:]` put ints into the list: `b"".join(ret)` raises TypeError -/
-theorem segWitness_typeError : (system segWitness 2).outcome = .err .typeError := by decide +kernel
-/-- the padded last segment is counted with its padding: "expected 9 bytes, got 15" -/
-theorem segWitnessShort_ethercat : (system segWitnessShort 2).outcome = .err .ethercat := by decide +kernel
-
-theorem read_segmented_refuted : ¬ read_segmented_full := by
-  intro h
-  have hwf : Wf segWitness.p := by unfold Wf subOr1; decide
-  refine not_eventually segWitness 2 _ (by decide +kernel) ?_
-    (h segWitness.p 0 [] segWitness.objs ⟨0x2000, 1, false, 32, [1,2,3,4,5,6,7,8,9,10,11,12,13,14,15,16,17,18,19,20,21,22,23]⟩
-      hwf (schedOk_nil _) (by unfold Holds; decide) (by decide))
-  rw [segWitness_typeError]
-  decide
-
-/-- what remains of the property for segmented uploads (and every other upload): whatever the length, the schedule and
-the number of rounds, the master's messages are 16-byte requests that fit, their toggles alternate from 0, and every
-response of the server fits the send mailbox -/
-theorem read_segmented_partial (p : Params) (cnt : Nat) (sched : List Slot) (objs : List Obj) (hwf : Wf p) (n : Nat) :
-    (∀ m ∈ sent (system ⟨p, .read, cnt, sched, objs⟩ n).trace, m.length ≤ p.outSz) ∧
-    (sent (system ⟨p, .read, cnt, sched, objs⟩ n).trace = [] ∨
-      ∃ k, (sent (system ⟨p, .read, cnt, sched, objs⟩ n).trace).map cmdOf = upCmd p :: altCmds k 0) ∧
-    (∀ rs ∈ (system ⟨p, .read, cnt, sched, objs⟩ n).responses, ∀ m ∈ rs, m.length ≤ p.inSz) := by
-  obtain ⟨h1, h2⟩ := read_requests_fit_and_toggle p hwf cnt (sched.map (·.full)) (mailsAfter ⟨p, .read, cnt, sched, objs⟩ n)
-  refine ⟨fun m hm => (h1 m hm).2, h2, ?_⟩
-  exact server_responses_fit (init p.outSz p.inSz objs) _ hwf.2.1
-
-/-! ### non-expedited download -/
-
-/-- full strength: more than 4 bytes written with a subindex reach the object byte for byte -/
-def write_normal_full : Prop :=
-  ∀ (p : Params) (cnt : Nat) (sched : List Slot) (objs : List Obj) (o : Obj) (v : List UInt8),
-    Wf p → DelaysOnly sched → p.sub.isSome = true → Holds p objs o → 4 < v.length → v.length ≤ o.cap →
-    Eventually ⟨p, .write v, cnt, sched, objs⟩
-      (fun r => r.outcome = .ok [] ∧ target ⟨p, .write v, cnt, sched, objs⟩ r.objs = some v)
-
-/-- 32-byte mailboxes, five bytes into an object that can hold eight -/
-def normWitness : Setup :=
-  ⟨⟨32, 32, 0x2000, some 1⟩, .write [1,2,3,4,5], 0, [], [⟨0x2000, 1, false, 8, [9]⟩]⟩
-
-/-- the complete size is sent as 0, the server aborts, `sdo_write` raises and the object keeps its old value -/
-theorem normWitness_run : (system normWitness 1).outcome = .err .ethercat ∧
-    target normWitness (system normWitness 1).objs = some [9] := by decide +kernel
-
-theorem write_normal_refuted : ¬ write_normal_full := by
-  intro h
-  have hwf : Wf normWitness.p := by unfold Wf subOr1; decide
-  refine not_eventually normWitness 1 _ (by decide +kernel) ?_
-    (h normWitness.p 0 [] normWitness.objs ⟨0x2000, 1, false, 8, [9]⟩ [1,2,3,4,5]
-      hwf delaysOnly_nil (by decide) (by unfold Holds; decide) (by decide) (by decide))
-  rw [normWitness_run.1]
-  decide
-
-/-- full strength: a value written with complete access (no subindex) reaches the object byte for byte -/
-def write_complete_full : Prop :=
-  ∀ (p : Params) (cnt : Nat) (sched : List Slot) (objs : List Obj) (o : Obj) (v : List UInt8),
-    Wf p → DelaysOnly sched → p.sub = none → Holds p objs o → v.length ≤ o.cap →
-    Eventually ⟨p, .write v, cnt, sched, objs⟩
-      (fun r => r.outcome = .ok [] ∧ target ⟨p, .write v, cnt, sched, objs⟩ r.objs = some v)
-
-/-- complete access, the empty value: the one download the server accepts (complete size 0 = 0 bytes) -/
-def caWitness : Setup :=
-  ⟨⟨32, 32, 0x2000, none⟩, .write [], 0, [], [⟨0x2000, 1, true, 8, [9]⟩]⟩
-
-/-- … and `subindex != subidx` compares `None` with 1: `sdo_write` raises although the server stored the value -/
-theorem caWitness_run : (system caWitness 1).outcome = .err .ethercat ∧
-    target caWitness (system caWitness 1).objs = some [] := by decide +kernel
-
-theorem write_complete_refuted : ¬ write_complete_full := by
-  intro h
-  have hwf : Wf caWitness.p := by unfold Wf subOr1; decide
-  refine not_eventually caWitness 1 _ (by decide +kernel) ?_
-    (h caWitness.p 0 [] caWitness.objs ⟨0x2000, 1, true, 8, [9]⟩ []
-      hwf delaysOnly_nil rfl (by unfold Holds; decide) (by decide))
-  rw [caWitness_run.1]
-  decide
-
-/-- what `sdo_write` does with the mail it receives after an initiate-download request -/
-def normCont (p : Params) (v : List UInt8) (td : Nat × List UInt8) : M (List UInt8) :=
-  checkDown p td.1 td.2 >>= fun _ => downStart p (min v.length (p.outSz - 16)) td.2
-
-theorem sdoWrite_norm_eq (p : Params) (v : List UInt8) (h : ¬ (v.length ≤ 4 ∧ p.sub.isSome = true)) :
-    sdoWrite p v = (mbxSend (initDownReq p v) >>= fun _ => mbxRecv >>= normCont p v) := by
-  unfold sdoWrite
-  simp only [h, if_false]
-  rfl
-
-/-- the command byte of the initiate-download request -/
-def downCmd (p : Params) : Nat := if p.sub.isNone then od_DOWN_INIT_CA else od_DOWN_INIT
-
-theorem initDownReq_eq (p : Params) (v : List UInt8) :
-    initDownReq p v = sdoHdr (coe_SDOREQ <<< 12) (downCmd p) p.index (subOr1 p) ++
-      (encLE 4 0 ++ v.take (min v.length (p.outSz - 16))) := by
-  simp [initDownReq, downCmd, zeros, encLE]
-
-theorem downCmd_facts (p : Params) : downCmd p < 256 ∧ downCmd p >>> 5 = 1 ∧ (downCmd p &&& 0x10 != 0) = p.sub.isNone ∧
-    (downCmd p &&& 2 != 0) = false ∧ (downCmd p &&& 1 == 0) = false := by
-  unfold downCmd
-  cases p.sub <;> simp <;> decide
-
-theorem initDownReq_length (p : Params) (v : List UInt8) :
-    (initDownReq p v).length = 10 + min v.length (p.outSz - 16) := by
-  rw [initDownReq_eq]; simp [sdoHdr_length]; omega
-
-/-- a conformant server refuses an initiate download whose complete size (0) is less than the data it carries -/
-theorem step_download_norm (s : Srv) (p : Params) (hwf : Wf p) (hout : 16 < p.outSz) (hout2 : p.outSz < 65536)
-    (cnt : Nat) (o : Obj) (v : List UInt8)
-    (hsz : s.outSz = p.outSz) (hfind : find s.objs p.index (subOr1 p) p.sub.isNone = some o) (h1 : 1 ≤ v.length) :
-    step s (msgOf cnt (initDownReq p v)) = abort { s with xfer := .idle } p.index (subOr1 p) abLen := by
-  obtain ⟨ho, hi, hi2, hidx, hsb⟩ := hwf
-  obtain ⟨c1, c2, c3, c4, c5⟩ := downCmd_facts p
-  have hl := initDownReq_length p v
-  have hsvc : u16 (initDownReq p v) 0 >>> 12 = 2 := by
-    rw [initDownReq_eq, u16_sdoHdr0 _ _ _ _ _ (by decide)]; decide
-  rw [step_sdo s cnt (initDownReq p v) (by omega) (by omega) (by omega) hsvc]
-  have hcmd : byte (initDownReq p v) 2 = downCmd p := by rw [initDownReq_eq, byte_sdoHdr2 _ _ _ _ _ c1]
-  rw [hcmd, c2]
-  simp only [initDownload, rd16_eq_u16, rd8_eq_byte, rd32_eq_u32, c3, c4, c5]
-  rw [initDownReq_eq, u16_sdoHdr3 _ _ _ _ _ hidx, byte_sdoHdr5 _ _ _ _ _ hsb, u32_sdoHdr6 _ _ _ _ _ _ (by decide),
-    drop10_sdoHdr]
-  have hv : v ≠ [] := by intro h; simp [h] at h1
-  have ho16 : p.outSz - 16 ≠ 0 := by omega
-  simp [hfind, hv, ho16]
-
-/-- the master takes the abort for what it is -/
-theorem normCont_abort (p : Params) (v : List UInt8) (code : Nat) (s : St) :
-    normCont p v (mbx_COE, sdoBody svcSdoReq 0x80 p.index (subOr1 p) (encLE 4 code)) s = (s, .err .ethercat) := by
-  have r1 : svcSdoReq <<< 12 < 65536 ∧ (svcSdoReq <<< 12) >>> 12 ≠ coe_SDORES := by decide
-  have hlen : ¬ (sdoHdr (svcSdoReq <<< 12) 0x80 p.index (subOr1 p) ++ encLE 4 code).length < 6 := by simp [sdoHdr_length]
-  have hc : checkDown p mbx_COE (sdoBody svcSdoReq 0x80 p.index (subOr1 p) (encLE 4 code)) s = (s, .err .ethercat) := by
-    rw [sdoBody_eq]
-    unfold checkDown
-    simp only [hlen, if_false, u16_sdoHdr0 _ _ _ _ _ r1.1, r1.2, ne_eq, not_true_eq_false, not_false_eq_true, if_true]
-    rfl
-  exact bind_err hc
-
-/-- **what is left of non-expedited downloads** (with a subindex and more than 4 bytes, or complete access and at least
-one byte): for every content, length, mailbox size above the bare header, counter and delay the server refuses the
-request, `sdo_write` raises EtherCatError, the object keeps its old value, and the one message sent fits -/
-theorem write_normal_partial (p : Params) (cnt : Nat) (sched : List Slot) (objs : List Obj) (o : Obj) (v : List UInt8)
-    (hwf : Wf p) (hout : 16 < p.outSz) (hout2 : p.outSz < 65536) (hs : DelaysOnly sched)
-    (hmode : ¬ (v.length ≤ 4 ∧ p.sub.isSome = true))
-    (h1 : 1 ≤ v.length) (hobj : Holds p objs o) :
-    ∀ n, 1 ≤ n →
-      (system ⟨p, .write v, cnt, sched, objs⟩ n).outcome = .err .ethercat ∧
-      (system ⟨p, .write v, cnt, sched, objs⟩ n).objs = objs ∧
-      (∀ m ∈ sent (system ⟨p, .write v, cnt, sched, objs⟩ n).trace, m.length ≤ p.outSz) := by
-  have hsrv := step_download_norm (init p.outSz p.inSz objs) p hwf hout hout2 cnt o v rfl hobj h1
-  simp only [abort, mail_eq] at hsrv
-  have hcoe : mbxCoE = mbx_COE := by decide
-  have hl := initDownReq_length p v
-  have hdec : decodeMail (padTo p.inSz (srvMail mbxCoE (init p.outSz p.inSz objs).cnt
-      (sdoBody svcSdoReq 0x80 p.index (subOr1 p) (encLE 4 abLen)))) =
-      .ok (mbx_COE, sdoBody svcSdoReq 0x80 p.index (subOr1 p) (encLE 4 abLen)) := by
-    rw [← hcoe]
-    exact decodeMail_srvMail _ _ _ _ (by simp [sdoBody_length]; exact hwf.2.1) (by simp [sdoBody_length]) (by decide) (by decide)
-  intro n hn
-  obtain ⟨e1, e2, _, e4⟩ := w_exchange p cnt sched objs v (initDownReq p v) (normCont p v) hs (sdoWrite_norm_eq p v hmode)
-    (by have := hwf.1; omega) (by omega) _ _ _ (.err .ethercat) hsrv hdec (normCont_abort p v abLen) n hn
-  refine ⟨e1, by rw [e2]; rfl, ?_⟩
-  rw [e4]
-  intro m hm
-  simp at hm; subst hm
-  simp; omega
-
-/-! ### zero-length expedited download -/
-
-/-- full strength: the empty value written with a subindex leaves the object empty -/
-def write_zero_expedited_full : Prop :=
-  ∀ (p : Params) (cnt : Nat) (sched : List Slot) (objs : List Obj) (o : Obj),
-    Wf p → DelaysOnly sched → p.sub.isSome = true → Holds p objs o →
-    Eventually ⟨p, .write [], cnt, sched, objs⟩
-      (fun r => r.outcome = .ok [] ∧ target ⟨p, .write [], cnt, sched, objs⟩ r.objs = some [])
-
-def zeroWitness : Setup :=
-  ⟨⟨32, 32, 0x2000, some 1⟩, .write [], 0, [], [⟨0x2000, 1, false, 8, [9]⟩]⟩
-
-/-- `((4 - 0) << 2) & 0xc` is 0: the request says "4 bytes of data", the object ends up holding four zero bytes -/
-theorem zeroWitness_run : (system zeroWitness 1).outcome = .ok [] ∧
-    target zeroWitness (system zeroWitness 1).objs = some [0, 0, 0, 0] := by decide +kernel
-
-theorem write_zero_expedited_refuted : ¬ write_zero_expedited_full := by
-  intro h
-  have hwf : Wf zeroWitness.p := by unfold Wf subOr1; decide
-  refine not_eventually zeroWitness 1 _ (by decide +kernel) ?_
-    (h zeroWitness.p 0 [] zeroWitness.objs ⟨0x2000, 1, false, 8, [9]⟩
-      hwf delaysOnly_nil (by decide) (by unfold Holds; decide))
-  intro hP
-  exact absurd (hP.2.symm.trans zeroWitness_run.2) (by decide)
-
-/-! ### expedited download with unrelated mail in the mailbox -/
-
-/-- full strength: `write_expedited_exact` under every schedule of `SchedOk`, not only delays -/
-def write_expedited_interleaved_full : Prop :=
-  ∀ (p : Params) (cnt : Nat) (sched : List Slot) (objs : List Obj) (o : Obj) (v : List UInt8),
-    Wf p → SchedOk p.inSz sched → p.sub.isSome = true → Holds p objs o → 1 ≤ v.length → v.length ≤ 4 → v.length ≤ o.cap →
-    Eventually ⟨p, .write v, cnt, sched, objs⟩
-      (fun r => r.outcome = .ok [] ∧ target ⟨p, .write v, cnt, sched, objs⟩ r.objs = some v)
-
-/-- one empty Ethernet-over-EtherCAT mail is in the send mailbox before the confirmation -/
-def mixWitness : Setup :=
-  ⟨⟨32, 32, 0x2000, some 1⟩, .write [7, 8], 0, [⟨false, [[0, 0, 0, 0, 0, 0x12]], 0⟩], [⟨0x2000, 1, false, 8, [9]⟩]⟩
-
-/-- the error message for "not CoE" mentions `odata`, which does not exist: NameError, although the value was stored -/
-theorem mixWitness_run : (system mixWitness 1).outcome = .err .nameError ∧
-    target mixWitness (system mixWitness 1).objs = some [7, 8] := by decide +kernel
-
-theorem write_expedited_interleaved_refuted : ¬ write_expedited_interleaved_full := by
-  intro h
-  have hwf : Wf mixWitness.p := by unfold Wf subOr1; decide
-  refine not_eventually mixWitness 1 _ (by decide +kernel) ?_
-    (h mixWitness.p 0 mixWitness.sched mixWitness.objs ⟨0x2000, 1, false, 8, [9]⟩ [7, 8]
-      hwf (by unfold SchedOk; decide) (by decide) (by unfold Holds; decide) (by decide) (by decide) (by decide))
-  rw [mixWitness_run.1]
-  decide
-
-/-! ## every message fits its mailbox, in the modes that work -/
+/-! ## every message fits its mailbox, segment toggles alternate from 0 — in every run of the composed system -/
 
 /-- the run's messages fit the receive mailbox and the server's mails fit the send mailbox -/
 def Fits (p : Params) (r : Result) : Prop :=
   (∀ m ∈ sent r.trace, m.length ≤ p.outSz) ∧ (∀ rs ∈ r.responses, ∀ m ∈ rs, m.length ≤ p.inSz)
 
-/-- **fits_mailbox** for expedited upload, one-frame normal upload and expedited download -/
-theorem fits_mailbox (p : Params) (cnt : Nat) (sched : List Slot) (objs : List Obj) (o : Obj) (hwf : Wf p)
-    (hobj : Holds p objs o) :
-    (SchedOk p.inSz sched → ((1 ≤ o.val.length ∧ o.val.length ≤ 4) ∨ o.val.length + 16 ≤ p.inSz) →
-      ∀ n, 1 ≤ n → Fits p (system ⟨p, .read, cnt, sched, objs⟩ n)) ∧
-    (∀ v : List UInt8, DelaysOnly sched → p.sub.isSome = true → 1 ≤ v.length → v.length ≤ 4 → v.length ≤ o.cap →
-      ∀ n, 1 ≤ n → Fits p (system ⟨p, .write v, cnt, sched, objs⟩ n)) := by
+/-- **fits_mailbox**: uploads and downloads of every length, every schedule, after any number of rounds -/
+theorem fits_mailbox (c : Setup) (hwf : Wf c.p) (n : Nat) : Fits c.p (system c n) := by
+  refine ⟨?_, server_responses_fit (init c.p.outSz c.p.inSz c.objs) _ hwf.2.1⟩
+  cases hk : c.kind with
+  | read =>
+    intro m hm
+    simp only [system, resultOf, hk] at hm
+    exact ((read_requests_fit_and_toggle c.p hwf c.cnt c.fulls (mailsAfter c n)).1 m hm).2
+  | write v =>
+    intro m hm
+    simp only [system, resultOf, hk] at hm
+    exact (write_requests_fit_and_toggle c.p hwf v c.cnt c.fulls (mailsAfter c n)).1 m hm
+
+/-- **toggle_alternates**: the upload segment requests carry toggles 0, 1, 0, … (command bytes 0x60, 0x70, 0x60, …),
+and so do the download segments (bit 4 of their command bytes) -/
+theorem toggle_alternates (c : Setup) (hwf : Wf c.p) (n : Nat) :
+    (c.kind = .read → sent (system c n).trace = [] ∨
+        ∃ k, (sent (system c n).trace).map cmdOf = upCmd c.p :: altCmds k 0) ∧
+    (∀ v, c.kind = .write v → ((sent (system c n).trace).drop 1).map togOf =
+        altBits ((sent (system c n).trace).length - 1) 0) := by
   constructor
-  · intro hs hlen n hn
-    obtain ⟨resp, hr, h⟩ := read_run p cnt sched objs o hwf hs hobj hlen
-    obtain ⟨_, _, h3, h4⟩ := h n hn
-    refine ⟨?_, ?_⟩
-    · rw [h4]; intro m hm; simp at hm; subst hm; simp; exact hwf.1
-    · rw [h3]; intro rs hrs m hm; simp at hrs; subst hrs; simp at hm; subst hm; exact hr
-  · intro v hs hsub h1 h4 hcap n hn
-    have hca : p.sub.isNone = false := by cases h : p.sub <;> simp [h] at hsub ⊢
-    have hobj' : find (init p.outSz p.inSz objs).objs p.index (subOr1 p) false = some o := by
-      simpa [Holds, hca, init] using hobj
-    have hsrv := step_download_exp (init p.outSz p.inSz objs) p hwf cnt o v rfl hobj' h1 h4 hcap
-    simp only [respond, mail_eq] at hsrv
-    have hcoe : mbxCoE = mbx_COE := by decide
-    have hdec : decodeMail (padTo p.inSz (srvMail mbxCoE (init p.outSz p.inSz objs).cnt
-        (sdoBody svcSdoRes 0x60 p.index (subOr1 p) (zeros 4)))) =
-        .ok (mbx_COE, sdoBody svcSdoRes 0x60 p.index (subOr1 p) (zeros 4)) := by
-      rw [← hcoe]
-      exact decodeMail_srvMail _ _ _ _ (by simp [sdoBody_length]; exact hwf.2.1) (by simp [sdoBody_length]) (by decide) (by decide)
-    obtain ⟨_, _, e3, e4⟩ := exp_exchange p cnt sched objs v hwf hs h4 hsub _ _ _ (.ok []) hsrv hdec
-      (expCont_confirm p hwf hsub) n hn
-    refine ⟨?_, ?_⟩
-    · rw [e4]; intro m hm; simp at hm; subst hm; simp [h4]; exact hwf.1
-    · rw [e3]; intro rs hrs m hm; simp at hrs; subst hrs; simp at hm; subst hm
-      simp [sdoBody_length]; exact hwf.2.1
+  · intro hk
+    simp only [system, resultOf, hk]
+    exact (read_requests_fit_and_toggle c.p hwf c.cnt c.fulls (mailsAfter c n)).2
+  · intro v hk
+    simp only [system, resultOf, hk]
+    exact (write_requests_fit_and_toggle c.p hwf v c.cnt c.fulls (mailsAfter c n)).2
 
 /-! ## non-vacuity: concrete inputs satisfy the hypotheses and exercise the transfers -/
 
-/-- a schedule with unrelated mail, a drain and a delay -/
-def exSched : List Slot := [⟨true, [[0, 0, 0, 0, 0, 0x12], [2, 0, 0, 0, 0, 0x21, 5, 6]], 2⟩]
-def exP : Params := ⟨32, 32, 0x2000, some 1⟩
+/-- a schedule with unrelated mail, a drain and a delay on the first exchange and unrelated mail before the third -/
+def exSched : List Slot :=
+  [⟨true, [[0, 0, 0, 0, 0, 0x12], [2, 0, 0, 0, 0, 0x21, 5, 6]], 2⟩, ⟨false, [], 1⟩, ⟨false, [[0, 0, 0, 0, 0, 0x15]], 0⟩]
+def exP : Params := ⟨24, 24, 0x2000, some 1⟩
+def exObj (n : Nat) : Obj := ⟨0x2000, 1, false, 64, (List.range n).map fun i => UInt8.ofNat (i + 1)⟩
 
-example : Wf exP ∧ SchedOk exP.inSz exSched ∧ Holds exP [⟨0x2000, 1, false, 4, [0xaa, 0xbb]⟩] ⟨0x2000, 1, false, 4, [0xaa, 0xbb]⟩ := by
-  refine ⟨by unfold Wf subOr1; decide, by unfold SchedOk; decide, by unfold Holds; decide⟩
-/-- expedited upload through unrelated mail, a drain and two empty polls -/
-example : (system ⟨exP, .read, 3, exSched, [⟨0x2000, 1, false, 4, [0xaa, 0xbb]⟩]⟩ 1).outcome = .ok [0xaa, 0xbb] := by
+example : Wf exP ∧ SchedOk exP.inSz exSched ∧ Holds exP [exObj 40] (exObj 40) ∧ exP.inSz < (exObj 40).val.length + 16 := by
+  refine ⟨by unfold Wf subOr1; decide, by unfold SchedOk; decide, by unfold Holds; decide, by decide⟩
+/-- segmented upload of 40 bytes through 24-byte mailboxes (8 + 15 + 15 + 2): four requests, toggles 0, 1, 0 -/
+example : (system ⟨exP, .read, 3, exSched, [exObj 40]⟩ 4).outcome = .ok (exObj 40).val ∧
+    (sent (system ⟨exP, .read, 3, exSched, [exObj 40]⟩ 4).trace).map cmdOf = [0x40, 0x60, 0x70, 0x60] := by
   decide +kernel
-/-- normal upload of 16 bytes = `inSz − 16`, complete access -/
-example : (system ⟨⟨32, 32, 0x2000, none⟩, .read, 7, exSched,
-    [⟨0x2000, 1, true, 16, [1,2,3,4,5,6,7,8,9,10,11,12,13,14,15,16]⟩]⟩ 1).outcome
-    = .ok [1,2,3,4,5,6,7,8,9,10,11,12,13,14,15,16] := by decide +kernel
-/-- expedited download of three bytes with a delayed confirmation: the object holds them -/
-example : DelaysOnly [⟨false, [], 3⟩] ∧
-    (system ⟨exP, .write [1, 2, 3], 7, [⟨false, [], 3⟩], [⟨0x2000, 1, false, 4, [9]⟩]⟩ 1).outcome = .ok [] ∧
-    target ⟨exP, .write [1, 2, 3], 7, [⟨false, [], 3⟩], [⟨0x2000, 1, false, 4, [9]⟩]⟩
-      (system ⟨exP, .write [1, 2, 3], 7, [⟨false, [], 3⟩], [⟨0x2000, 1, false, 4, [9]⟩]⟩ 1).objs = some [1, 2, 3] := by
-  refine ⟨by unfold DelaysOnly; decide, by decide +kernel, by decide +kernel⟩
-/-- three upload segments are requested with toggles 0, 1, 0 (the transfer then fails, see `segWitness`) -/
-example : (sent (system ⟨⟨24, 24, 0x2000, some 1⟩, .read, 0, [],
-    [⟨0x2000, 1, false, 64, List.replicate 40 7⟩]⟩ 4).trace).map cmdOf = [0x40, 0x60, 0x70, 0x60] := by decide +kernel
-example : altCmds 3 0 = [0x60, 0x70, 0x60] := by decide
-/-- the witnesses of the refutations are inside the domain of the full statements -/
-example : segWitness.p.inSz < 23 + 16 ∧ Wf segWitness.p ∧ Wf normWitness.p ∧ Wf caWitness.p ∧ Wf zeroWitness.p ∧
-    Wf mixWitness.p ∧ SchedOk mixWitness.p.inSz mixWitness.sched := by
-  refine ⟨by decide, ?_, ?_, ?_, ?_, ?_, by unfold SchedOk; decide⟩ <;> (unfold Wf subOr1; decide)
+/-- segmented download of 40 bytes (8 + 15 + 15 + 2) into an object that held something else -/
+example : (system ⟨exP, .write (exObj 40).val, 5, exSched, [exObj 3]⟩ 4).outcome = .ok [] ∧
+    target ⟨exP, .write (exObj 40).val, 5, exSched, [exObj 3]⟩
+      (system ⟨exP, .write (exObj 40).val, 5, exSched, [exObj 3]⟩ 4).objs = some (exObj 40).val ∧
+    ((sent (system ⟨exP, .write (exObj 40).val, 5, exSched, [exObj 3]⟩ 4).trace).drop 1).map togOf = [0, 1, 0] := by
+  decide +kernel
+/-- the witnesses of the former findings (findings/C16.json) now pass: 23 and 9 bytes uploaded through 24-byte
+mailboxes; 5 bytes, the empty value, and the empty value with complete access downloaded; an expedited download with
+unrelated mail before the confirmation -/
+example : (system ⟨⟨24, 24, 0x2000, some 1⟩, .read, 0, [], [exObj 23]⟩ 2).outcome = .ok (exObj 23).val ∧
+    (system ⟨⟨24, 24, 0x2000, some 1⟩, .read, 0, [], [exObj 9]⟩ 2).outcome = .ok (exObj 9).val := by decide +kernel
+example : target ⟨⟨32, 32, 0x2000, some 1⟩, .write [1, 2, 3, 4, 5], 0, [], [exObj 1]⟩
+      (system ⟨⟨32, 32, 0x2000, some 1⟩, .write [1, 2, 3, 4, 5], 0, [], [exObj 1]⟩ 1).objs = some [1, 2, 3, 4, 5] ∧
+    target ⟨⟨32, 32, 0x2000, some 1⟩, .write [], 0, [], [exObj 1]⟩
+      (system ⟨⟨32, 32, 0x2000, some 1⟩, .write [], 0, [], [exObj 1]⟩ 1).objs = some [] ∧
+    (system ⟨⟨32, 32, 0x2000, none⟩, .write [], 0, [], [⟨0x2000, 1, true, 8, [9]⟩]⟩ 1).outcome = .ok [] ∧
+    (system ⟨⟨32, 32, 0x2000, some 1⟩, .write [7, 8], 0, [⟨false, [[0, 0, 0, 0, 0, 0x12]], 0⟩], [exObj 1]⟩ 1).outcome = .ok [] := by
+  decide +kernel
+example : altCmds 3 0 = [0x60, 0x70, 0x60] ∧ altBits 3 0 = [0, 1, 0] := by decide
 
 end Ebv.C16
